@@ -1,18 +1,2751 @@
-//! C09 — not built yet.
+//! C09 — the server answers every message correctly framed and never goes down.
+//!
+//! E-SRV: the real `resolved` binary (hooks on, inert) is started on loopback in
+//! two modes (authoritative-only; recursion offered, with a forwarder run by
+//! this driver) and every message of a stated alphabet is sent to it over UDP
+//! and TCP.  Each reply is compared with a small reference responder written
+//! from the property statement; the sections/AA/RCODE part of the expectation
+//! is what `dns_resolver::resolve` produces in-process for the same zone text.
+//!
+//! The first part of this file (process plumbing: `Server`, `LogBuf`,
+//! `free_port`) is also used by C19.
+
 use crate::common::*;
-use serde_json::Value;
+use crate::refwire;
+use dns_resolver::cache::SharedCache;
+use dns_resolver::util::types::{ProtocolMode, ResolvedRecord};
+use dns_types::hosts::types::Hosts;
+use dns_types::protocol::types::*;
+use dns_types::zones::types::{Zone, Zones};
+use serde_json::{json, Value};
+use std::collections::{BTreeMap, BTreeSet, HashMap, HashSet};
+use std::io::{BufRead, BufReader, Read, Write};
+use std::net::{Ipv4Addr, Shutdown, SocketAddr, TcpListener, TcpStream, UdpSocket};
+use std::os::unix::process::CommandExt;
+use std::path::{Path, PathBuf};
+use std::process::{Child, Command, Stdio};
+use std::sync::atomic::{AtomicBool, AtomicU64, Ordering};
+use std::sync::{Arc, Condvar, Mutex};
+use std::time::{Duration, Instant};
 
-pub fn run(_ctx: &Ctx) -> i32 {
-    eprintln!("C09: check not built");
-    2
+// =====================================================================================
+// Process plumbing (shared with C19)
+// =====================================================================================
+
+/// A port that is free for both UDP and TCP on 127.0.0.1 at the time of the call.
+pub fn free_port() -> u16 {
+    for _ in 0..200 {
+        let Ok(u) = UdpSocket::bind((Ipv4Addr::LOCALHOST, 0)) else {
+            continue;
+        };
+        let Ok(a) = u.local_addr() else { continue };
+        if TcpListener::bind((Ipv4Addr::LOCALHOST, a.port())).is_ok() {
+            return a.port();
+        }
+    }
+    0
 }
 
-pub fn replay(_ctx: &Ctx, _v: &Value) -> i32 {
-    eprintln!("C09: check not built");
-    2
+/// Lines of the server's stdout and stderr, in arrival order.
+pub struct LogBuf {
+    pub lines: Mutex<Vec<String>>,
+    pub cv: Condvar,
 }
 
-/// Entry point for `vcheck worker C09 <args...>` (child-process mode).
+impl LogBuf {
+    pub fn new() -> Arc<LogBuf> {
+        Arc::new(LogBuf {
+            lines: Mutex::new(Vec::new()),
+            cv: Condvar::new(),
+        })
+    }
+    pub fn len(&self) -> usize {
+        self.lines.lock().unwrap().len()
+    }
+    /// First line at index >= `from` satisfying `pred`, waiting up to `timeout`.
+    pub fn wait_for<F: Fn(&str) -> bool>(
+        &self,
+        from: usize,
+        timeout: Duration,
+        pred: F,
+    ) -> Option<(usize, String)> {
+        let deadline = Instant::now() + timeout;
+        let mut scanned = from;
+        let mut g = self.lines.lock().unwrap();
+        loop {
+            while scanned < g.len() {
+                if pred(&g[scanned]) {
+                    return Some((scanned, g[scanned].clone()));
+                }
+                scanned += 1;
+            }
+            let now = Instant::now();
+            if now >= deadline {
+                return None;
+            }
+            let (ng, _) = self.cv.wait_timeout(g, deadline - now).unwrap();
+            g = ng;
+        }
+    }
+    pub fn tail(&self, n: usize) -> Vec<String> {
+        let g = self.lines.lock().unwrap();
+        g[g.len().saturating_sub(n)..].to_vec()
+    }
+    fn pump<R: Read + Send + 'static>(self: &Arc<Self>, r: R) {
+        let me = self.clone();
+        std::thread::spawn(move || {
+            let rd = BufReader::new(r);
+            for line in rd.split(b'\n') {
+                let Ok(line) = line else { break };
+                let s = String::from_utf8_lossy(&line).to_string();
+                let mut g = me.lines.lock().unwrap();
+                g.push(s);
+                // keep memory bounded on very chatty runs
+                if g.len() > 2_000_000 {
+                    g.clear();
+                }
+                me.cv.notify_all();
+            }
+        });
+    }
+}
+
+/// The `resolved` process under test.  Killed when dropped.
+pub struct Server {
+    child: Child,
+    pub addr: SocketAddr,
+    pub log: Arc<LogBuf>,
+}
+
+impl Server {
+    /// Start `resolved -i 127.0.0.1:<free> --metrics-address 127.0.0.1:<free> <args>`
+    /// and wait until it answers.  Must be called from a thread that outlives the
+    /// server (the child is asked to die with the spawning thread).
+    pub fn start(args: &[String], envs: &[(String, String)], rust_log: &str) -> Result<Server, String> {
+        let bin = bin_dir().join("resolved");
+        if !bin.exists() {
+            return Err(format!("server binary {} missing", bin.display()));
+        }
+        let mut last = String::new();
+        for _attempt in 0..5 {
+            let port = free_port();
+            let mport = free_port();
+            if port == 0 || mport == 0 || port == mport {
+                last = "no free port".into();
+                continue;
+            }
+            let addr = SocketAddr::from((Ipv4Addr::LOCALHOST, port));
+            let mut cmd = Command::new(&bin);
+            cmd.arg("-i")
+                .arg(addr.to_string())
+                .arg("--metrics-address")
+                .arg(format!("127.0.0.1:{mport}"))
+                .args(args)
+                .env("RUST_LOG", rust_log)
+                .env("RUST_LOG_FORMAT", "no-ansi,no-time")
+                .env_remove("RESOLVED_VERIF_GATE")
+                .stdin(Stdio::null())
+                .stdout(Stdio::piped())
+                .stderr(Stdio::piped());
+            for (k, v) in envs {
+                cmd.env(k, v);
+            }
+            unsafe {
+                cmd.pre_exec(|| {
+                    libc::prctl(libc::PR_SET_PDEATHSIG, libc::SIGKILL);
+                    Ok(())
+                });
+            }
+            let mut child = match cmd.spawn() {
+                Ok(c) => c,
+                Err(e) => {
+                    last = format!("spawn: {e}");
+                    continue;
+                }
+            };
+            let log = LogBuf::new();
+            if let Some(o) = child.stdout.take() {
+                log.pump(o);
+            }
+            if let Some(e) = child.stderr.take() {
+                log.pump(e);
+            }
+            let mut srv = Server { child, addr, log };
+            // readiness: a header-only STATUS request is answered NOTIMP without
+            // touching the resolver (and hence without touching any gate)
+            let deadline = Instant::now() + Duration::from_secs(15);
+            let mut ready = false;
+            if let Ok(sock) = UdpSocket::bind((Ipv4Addr::LOCALHOST, 0)) {
+                let _ = sock.set_read_timeout(Some(Duration::from_millis(20)));
+                let probe = [0xff, 0xff, 0x10, 0, 0, 0, 0, 0, 0, 0, 0, 0];
+                let mut buf = [0u8; 600];
+                while Instant::now() < deadline {
+                    if !srv.alive() {
+                        break;
+                    }
+                    let _ = sock.send_to(&probe, addr);
+                    if let Ok((n, _)) = sock.recv_from(&mut buf) {
+                        if n >= 2 && buf[0] == 0xff && buf[1] == 0xff {
+                            ready = true;
+                            break;
+                        }
+                    }
+                }
+            }
+            if ready {
+                // TCP listener is bound before the UDP task is spawned; make sure anyway
+                if TcpStream::connect_timeout(&addr, Duration::from_secs(2)).is_ok() {
+                    return Ok(srv);
+                }
+            }
+            last = format!(
+                "server did not become ready on {addr}; log tail: {:?}",
+                srv.log.tail(8)
+            );
+            drop(srv);
+        }
+        Err(last)
+    }
+
+    pub fn alive(&mut self) -> bool {
+        matches!(self.child.try_wait(), Ok(None))
+    }
+
+    pub fn pid(&self) -> i32 {
+        self.child.id() as i32
+    }
+
+    pub fn signal(&self, sig: i32) {
+        unsafe {
+            libc::kill(self.pid(), sig);
+        }
+    }
+
+    pub fn exit_status(&mut self) -> String {
+        match self.child.try_wait() {
+            Ok(Some(s)) => format!("{s}"),
+            Ok(None) => "running".into(),
+            Err(e) => format!("unknown ({e})"),
+        }
+    }
+}
+
+impl Drop for Server {
+    fn drop(&mut self) {
+        let _ = self.child.kill();
+        let _ = self.child.wait();
+    }
+}
+
+/// Removes a work directory when dropped.
+pub struct DirGuard(pub PathBuf);
+impl Drop for DirGuard {
+    fn drop(&mut self) {
+        let _ = std::fs::remove_dir_all(&self.0);
+    }
+}
+
+// =====================================================================================
+// UDP exchange engine
+// =====================================================================================
+
+const SENTINEL_LO: u16 = 0xff00;
+
+/// `www.c9.test. A IN`, RD=0, with the given ID.
+fn sentinel_query(id: u16) -> Vec<u8> {
+    build_msg(id, 0, &[q_www_a()], &[], None)
+}
+
+/// Bounds the number of datagrams in flight towards one server (its socket buffer is
+/// finite and the kernel drops what does not fit).
+pub struct Sem {
+    free: Mutex<usize>,
+    cv: Condvar,
+}
+
+impl Sem {
+    pub fn new(n: usize) -> Sem {
+        Sem {
+            free: Mutex::new(n),
+            cv: Condvar::new(),
+        }
+    }
+    fn acquire(&self, n: usize) {
+        let mut g = self.free.lock().unwrap();
+        while *g < n {
+            g = self.cv.wait(g).unwrap();
+        }
+        *g -= n;
+    }
+    fn release(&self, n: usize) {
+        *self.free.lock().unwrap() += n;
+        self.cv.notify_all();
+    }
+}
+
+pub struct BatchObs {
+    /// Datagrams attributed (by ID) to each probe, in arrival order.
+    pub replies: Vec<Vec<Vec<u8>>>,
+    /// Datagrams that belong to no probe of the batch.
+    pub strays: Vec<Vec<u8>>,
+    /// Probes answered only when sent again on their own.
+    pub retried: u64,
+    /// The server stopped answering sentinels.
+    pub dead: bool,
+}
+
+/// Send `msgs` (IDs already final, unique among messages of length >= 2 and below
+/// `SENTINEL_LO`) in chunks of `window`, each chunk followed by a sentinel query; wait for the
+/// sentinel and for one reply to every message with `expect[i]`.  After the last chunk a
+/// final sentinel and a grace period establish "no reply" for everything else.
+pub fn udp_batch(addr: SocketAddr, msgs: &[Vec<u8>], expect: &[bool], window: usize, grace_ms: u64) -> BatchObs {
+    udp_batch_sem(addr, msgs, expect, window, grace_ms, None)
+}
+
+pub fn udp_batch_sem(addr: SocketAddr, msgs: &[Vec<u8>], expect: &[bool], window: usize, grace_ms: u64, sem: Option<&Sem>) -> BatchObs {
+    let n = msgs.len();
+    let mut obs = BatchObs {
+        replies: vec![Vec::new(); n],
+        strays: Vec::new(),
+        retried: 0,
+        dead: false,
+    };
+    let sock = match UdpSocket::bind((Ipv4Addr::LOCALHOST, 0)) {
+        Ok(s) => s,
+        Err(_) => {
+            obs.dead = true;
+            return obs;
+        }
+    };
+    let _ = sock.connect(addr);
+    let mut by_id: HashMap<u16, usize> = HashMap::with_capacity(n);
+    for (i, m) in msgs.iter().enumerate() {
+        if m.len() >= 2 {
+            by_id.insert(u16::from_be_bytes([m[0], m[1]]), i);
+        }
+    }
+    let mut buf = vec![0u8; 70000];
+    let mut sid_counter: u16 = 0;
+    let mut next_sid = || {
+        sid_counter = (sid_counter + 1) % 255;
+        SENTINEL_LO + sid_counter
+    };
+
+    // receive until `need` hits zero or the deadline passes
+    fn pump(
+        sock: &UdpSocket,
+        buf: &mut [u8],
+        by_id: &HashMap<u16, usize>,
+        expect: &[bool],
+        obs: &mut BatchObs,
+        sid: u16,
+        need: &mut usize,
+        sentinel_seen: &mut bool,
+        deadline: Instant,
+        until_deadline: bool,
+    ) {
+        loop {
+            if !until_deadline && *need == 0 && *sentinel_seen {
+                return;
+            }
+            let now = Instant::now();
+            if now >= deadline {
+                return;
+            }
+            let _ = sock.set_read_timeout(Some((deadline - now).max(Duration::from_millis(1))));
+            match sock.recv(buf) {
+                Ok(k) => {
+                    let d = buf[..k].to_vec();
+                    if k >= 2 {
+                        let id = u16::from_be_bytes([d[0], d[1]]);
+                        if id >= SENTINEL_LO {
+                            if id == sid {
+                                *sentinel_seen = true;
+                            }
+                            // late sentinel replies of earlier chunks are harmless
+                            continue;
+                        }
+                        if let Some(&i) = by_id.get(&id) {
+                            obs.replies[i].push(d);
+                            if expect[i] && obs.replies[i].len() == 1 && *need > 0 {
+                                *need -= 1;
+                            }
+                            continue;
+                        }
+                    }
+                    obs.strays.push(d);
+                }
+                Err(_) => {}
+            }
+        }
+    }
+
+    let mut start = 0usize;
+    while start < n {
+        let end = (start + window).min(n);
+        let mut need = 0usize;
+        if let Some(sm) = sem {
+            sm.acquire(window + 1);
+        }
+        for i in start..end {
+            let _ = sock.send(&msgs[i]);
+            if expect[i] && obs.replies[i].is_empty() {
+                need += 1;
+            }
+        }
+        let sid = next_sid();
+        let _ = sock.send(&sentinel_query(sid));
+        let mut seen = false;
+        pump(
+            &sock,
+            &mut buf,
+            &by_id,
+            expect,
+            &mut obs,
+            sid,
+            &mut need,
+            &mut seen,
+            Instant::now() + Duration::from_millis(1500),
+            false,
+        );
+        if let Some(sm) = sem {
+            sm.release(window + 1);
+        }
+        if need > 0 || !seen {
+            // retry what is missing, one at a time (a lost datagram would be a property of
+            // the sandbox, a missing reply of the server: the latter repeats)
+            if !seen {
+                let mut ok = false;
+                for _ in 0..2 {
+                    let sid2 = next_sid();
+                    let _ = sock.send(&sentinel_query(sid2));
+                    let mut zero = 0usize;
+                    let mut s2 = false;
+                    pump(
+                        &sock,
+                        &mut buf,
+                        &by_id,
+                        expect,
+                        &mut obs,
+                        sid2,
+                        &mut zero,
+                        &mut s2,
+                        Instant::now() + Duration::from_millis(1500),
+                        false,
+                    );
+                    if s2 {
+                        ok = true;
+                        break;
+                    }
+                }
+                if !ok {
+                    obs.dead = true;
+                    return obs;
+                }
+            }
+            for i in start..end {
+                if expect[i] && obs.replies[i].is_empty() {
+                    let _ = sock.send(&msgs[i]);
+                    let sid3 = next_sid();
+                    let _ = sock.send(&sentinel_query(sid3));
+                    let mut one = 1usize;
+                    let mut s3 = false;
+                    pump(
+                        &sock,
+                        &mut buf,
+                        &by_id,
+                        expect,
+                        &mut obs,
+                        sid3,
+                        &mut one,
+                        &mut s3,
+                        Instant::now() + Duration::from_millis(1500),
+                        false,
+                    );
+                    if !obs.replies[i].is_empty() {
+                        obs.retried += 1;
+                    }
+                }
+            }
+        }
+        start = end;
+    }
+    // final sentinel + grace
+    let sid = next_sid();
+    let _ = sock.send(&sentinel_query(sid));
+    let mut zero = 0usize;
+    let mut seen = false;
+    pump(
+        &sock,
+        &mut buf,
+        &by_id,
+        expect,
+        &mut obs,
+        sid,
+        &mut zero,
+        &mut seen,
+        Instant::now() + Duration::from_millis(2000),
+        false,
+    );
+    if !seen {
+        obs.dead = true;
+        return obs;
+    }
+    pump(
+        &sock,
+        &mut buf,
+        &by_id,
+        expect,
+        &mut obs,
+        sid,
+        &mut zero,
+        &mut seen,
+        Instant::now() + Duration::from_millis(grace_ms),
+        true,
+    );
+    obs
+}
+
+// =====================================================================================
+// Message construction
+// =====================================================================================
+
+pub fn name_wire(dotted: &str) -> Vec<u8> {
+    let mut v = Vec::new();
+    for l in dotted.split('.') {
+        if l.is_empty() {
+            continue;
+        }
+        v.push(l.len() as u8);
+        v.extend_from_slice(l.as_bytes());
+    }
+    v.push(0);
+    v
+}
+
+#[derive(Clone, Debug)]
+pub struct Q {
+    pub name: Vec<u8>,
+    pub qtype: u16,
+    pub qclass: u16,
+}
+
+pub fn q(name: &str, qtype: u16, qclass: u16) -> Q {
+    Q {
+        name: name_wire(name),
+        qtype,
+        qclass,
+    }
+}
+
+fn q_www_a() -> Q {
+    q("www.c9.test.", 1, 1)
+}
+
+/// Header (`flags` = the whole second 16-bit word) + questions + `extra` raw bytes.  Counts
+/// are (questions, 0, 0, 0) unless overridden.
+pub fn build_msg(id: u16, flags: u16, qs: &[Q], extra: &[u8], counts: Option<[u16; 4]>) -> Vec<u8> {
+    let mut v = Vec::with_capacity(12 + 32 * qs.len() + extra.len());
+    v.extend_from_slice(&id.to_be_bytes());
+    v.extend_from_slice(&flags.to_be_bytes());
+    let c = counts.unwrap_or([qs.len() as u16, 0, 0, 0]);
+    for x in c {
+        v.extend_from_slice(&x.to_be_bytes());
+    }
+    for qq in qs {
+        v.extend_from_slice(&qq.name);
+        v.extend_from_slice(&qq.qtype.to_be_bytes());
+        v.extend_from_slice(&qq.qclass.to_be_bytes());
+    }
+    v.extend_from_slice(extra);
+    v
+}
+
+fn set_id(m: &mut [u8], id: u16) {
+    if m.len() >= 2 {
+        m[0] = (id >> 8) as u8;
+        m[1] = id as u8;
+    } else if m.len() == 1 {
+        m[0] = (id >> 8) as u8;
+    }
+}
+
+const FLAG_RD: u16 = 0x0100;
+
+// =====================================================================================
+// The configuration served, and the in-process resolver used for expectations
+// =====================================================================================
+
+const BIG_FAMILY: usize = 24;
+const BIG_T0: usize = 392;
+const HUGE_RECORDS: usize = 290;
+
+fn filler(seed: usize, len: usize) -> String {
+    // distinct per seed, only [a-z0-9]
+    let head = format!("r{seed}x");
+    let mut s = String::with_capacity(len);
+    s.push_str(&head);
+    let alphabet = b"abcdefghijklmnopqrstuvwxyz0123456789";
+    let mut i = 0usize;
+    while s.len() < len {
+        s.push(alphabet[(seed * 7 + i) % alphabet.len()] as char);
+        i += 1;
+    }
+    s.truncate(len);
+    s
+}
+
+pub fn zone_text() -> String {
+    let mut z = String::new();
+    z.push_str("$ORIGIN c9.test.\n");
+    z.push_str("@ 300 IN SOA ns.c9.test. admin.c9.test. 1 3600 600 86400 300\n");
+    z.push_str("@ 300 IN NS ns.c9.test.\n");
+    z.push_str("@ 300 IN MX 10 mail.c9.test.\n");
+    z.push_str("ns 300 IN A 192.0.2.1\n");
+    z.push_str("mail 300 IN A 192.0.2.2\n");
+    z.push_str("www 300 IN A 192.0.2.10\n");
+    z.push_str("www 300 IN A 192.0.2.11\n");
+    z.push_str("www 300 IN TXT hello\n");
+    z.push_str("alias1 300 IN CNAME alias2.c9.test.\n");
+    z.push_str("alias2 300 IN CNAME www.c9.test.\n");
+    z.push_str("ext 300 IN CNAME www.other.test.\n");
+    z.push_str("dangling 300 IN CNAME nowhere.c9.test.\n");
+    z.push_str("*.wild 300 IN A 192.0.2.20\n");
+    z.push_str("sub 300 IN NS ns.elsewhere.test.\n");
+    z.push_str("sub 300 IN NS ns2.elsewhere.test.\n");
+    for i in 0..BIG_FAMILY {
+        z.push_str(&format!("s{i:02} 300 IN TXT {}\n", filler(i, BIG_T0 + i)));
+    }
+    for i in 0..HUGE_RECORDS {
+        z.push_str(&format!("huge 300 IN TXT {}\n", filler(1000 + i, 230)));
+    }
+    z
+}
+
+pub fn hosts_text() -> String {
+    "192.0.2.77 host1.lan\nfd00::77 host1.lan\n0.0.0.0 blocked.lan\n".to_string()
+}
+
+#[derive(Clone, Copy, Debug, Eq, PartialEq, Hash, Ord, PartialOrd)]
+pub enum Mode {
+    Auth,
+    Rec,
+}
+
+impl Mode {
+    fn name(self) -> &'static str {
+        match self {
+            Mode::Auth => "authoritative-only",
+            Mode::Rec => "recursive+forwarder",
+        }
+    }
+    fn from_name(s: &str) -> Mode {
+        if s.starts_with("rec") {
+            Mode::Rec
+        } else {
+            Mode::Auth
+        }
+    }
+}
+
+/// What the resolver produced for a question, mapped to reply fields as the statement says
+/// ("the answer and authority sections, AA and RCODE are those the resolver produced";
+/// SERVFAIL when it produced nothing).
+#[derive(Clone, Debug, Eq, PartialEq)]
+pub struct Outcome {
+    pub rcode: u8,
+    pub aa: bool,
+    pub answers: Vec<ResourceRecord>,
+    pub authority: Vec<ResourceRecord>,
+    /// Records came from upstream/cache: TTLs may have counted down.
+    pub ttl_slack: bool,
+}
+
+fn outcome_of(res: Result<ResolvedRecord, dns_resolver::util::types::ResolutionError>, slack: bool) -> Outcome {
+    let mut o = Outcome {
+        rcode: 0,
+        aa: false,
+        answers: Vec::new(),
+        authority: Vec::new(),
+        ttl_slack: slack,
+    };
+    match res {
+        Ok(ResolvedRecord::Authoritative { rrs, soa_rr }) => {
+            o.answers = rrs;
+            o.authority = vec![soa_rr];
+            o.aa = true;
+        }
+        Ok(ResolvedRecord::AuthoritativeNameError { soa_rr }) => {
+            o.authority = vec![soa_rr];
+            o.rcode = 3;
+            o.aa = true;
+        }
+        Ok(ResolvedRecord::NonAuthoritative { rrs, soa_rr }) => {
+            o.answers = rrs;
+            if let Some(s) = soa_rr {
+                o.authority = vec![s];
+            }
+        }
+        Err(_) => {}
+    }
+    if o.answers.is_empty() && o.authority.is_empty() && o.rcode == 0 {
+        o.rcode = 2;
+        o.aa = false;
+    }
+    o.answers.sort();
+    o.authority.sort();
+    o
+}
+
+pub struct World {
+    zones: Zones,
+    rt: tokio::runtime::Runtime,
+    fwd: Option<SocketAddr>,
+    memo: Mutex<HashMap<(Question, Mode, bool), Vec<Outcome>>>,
+}
+
+impl World {
+    pub fn new(zone_text: &str, hosts_text: &str, fwd: Option<SocketAddr>) -> Result<World, String> {
+        let zone = Zone::deserialise(zone_text).map_err(|e| format!("zone text does not load: {e:?}"))?;
+        let hosts = Hosts::deserialise(hosts_text).map_err(|e| format!("hosts text does not load: {e:?}"))?;
+        let mut zones = Zones::new();
+        zones.insert_merge(zone);
+        zones.insert_merge(hosts.into());
+        let rt = tokio::runtime::Builder::new_current_thread()
+            .enable_all()
+            .build()
+            .map_err(|e| format!("runtime: {e}"))?;
+        Ok(World {
+            zones,
+            rt,
+            fwd,
+            memo: Mutex::new(HashMap::new()),
+        })
+    }
+
+    /// Every outcome the resolver can produce for `q` in `mode` with RD = `rd`
+    /// (several only where the shared cache's content matters).
+    pub fn outcomes(&self, q: &Question, mode: Mode, rd: bool) -> Vec<Outcome> {
+        let key = (q.clone(), mode, rd);
+        let mut memo = self.memo.lock().unwrap();
+        if let Some(v) = memo.get(&key) {
+            return v.clone();
+        }
+        let run = |recursive: bool, cache: &SharedCache| -> Outcome {
+            let (metrics, res) = self.rt.block_on(dns_resolver::resolve(
+                recursive,
+                ProtocolMode::OnlyV4,
+                53,
+                self.fwd,
+                &self.zones,
+                cache,
+                q,
+            ));
+            outcome_of(res, metrics.cache_hits > 0 || metrics.nameserver_hits > 0)
+        };
+        let mut alts: Vec<Outcome> = Vec::new();
+        match mode {
+            Mode::Auth => alts.push(run(false, &SharedCache::new())),
+            Mode::Rec => {
+                let cache = SharedCache::new();
+                if rd {
+                    alts.push(run(true, &cache));
+                    let warm = run(true, &cache);
+                    if !alts.contains(&warm) {
+                        alts.push(warm);
+                    }
+                } else {
+                    alts.push(run(false, &cache));
+                    let _ = run(true, &cache);
+                    let warm = run(false, &cache);
+                    if !alts.contains(&warm) {
+                        alts.push(warm);
+                    }
+                }
+            }
+        }
+        memo.insert(key, alts.clone());
+        alts
+    }
+}
+
+// =====================================================================================
+// Reference responder (written from the property statement)
+// =====================================================================================
+
+#[derive(Clone, Debug)]
+pub enum Expect {
+    /// No datagram / no TCP payload may come back.
+    NoReply(&'static str),
+    FormErr {
+        id: u16,
+    },
+    NotImp {
+        id: u16,
+        opcode: u8,
+        rd: bool,
+        questions: Vec<Question>,
+    },
+    Std {
+        id: u16,
+        rd: bool,
+        questions: Vec<Question>,
+        ra: bool,
+        alts: Vec<Outcome>,
+        refused: bool,
+    },
+}
+
+impl Expect {
+    fn wants_reply(&self) -> bool {
+        !matches!(self, Expect::NoReply(_))
+    }
+    fn label(&self) -> String {
+        match self {
+            Expect::NoReply(w) => format!("no-reply({w})"),
+            Expect::FormErr { .. } => "FORMERR".into(),
+            Expect::NotImp { .. } => "NOTIMP".into(),
+            Expect::Std { alts, refused, .. } => {
+                if *refused {
+                    "REFUSED".into()
+                } else {
+                    let o = &alts[0];
+                    format!(
+                        "rcode{}{}{}",
+                        o.rcode,
+                        if o.aa { "+AA" } else { "" },
+                        if o.answers.is_empty() { "" } else { "+answers" }
+                    )
+                }
+            }
+        }
+    }
+}
+
+/// Types and classes this server knows (RFC 1035 types 1..16, AAAA, SRV, the four QTYPEs;
+/// class IN and QCLASS *).
+fn known_qtype(t: u16) -> bool {
+    (1..=16).contains(&t) || t == 28 || t == 33 || (252..=255).contains(&t)
+}
+fn known_qclass(c: u16) -> bool {
+    c == 1 || c == 255
+}
+
+/// `short_read`: TCP only, fewer octets arrived than the length prefix announced.
+pub fn reference(world: &World, mode: Mode, msg: &[u8], short_read: bool) -> Expect {
+    if msg.len() < 2 {
+        return Expect::NoReply("too short to hold an ID");
+    }
+    let id = u16::from_be_bytes([msg[0], msg[1]]);
+    if msg.len() >= 3 && msg[2] & 0x80 != 0 {
+        return Expect::NoReply("flagged as a response");
+    }
+    if short_read {
+        return Expect::FormErr { id };
+    }
+    let m = match refwire::decode(msg) {
+        Ok(m) => m,
+        Err(_) => return Expect::FormErr { id },
+    };
+    let opcode = (msg[2] >> 3) & 0x0f;
+    let rd = msg[2] & 1 != 0;
+    if opcode != 0 {
+        return Expect::NotImp {
+            id,
+            opcode,
+            rd,
+            questions: m.questions,
+        };
+    }
+    let ra = mode == Mode::Rec;
+    let nothing = Outcome {
+        rcode: 2,
+        aa: false,
+        answers: vec![],
+        authority: vec![],
+        ttl_slack: false,
+    };
+    let mut refused = false;
+    let alts = if m.questions.len() > 1 {
+        refused = true;
+        vec![Outcome { rcode: 5, ..nothing }]
+    } else if m.questions.is_empty() {
+        vec![nothing]
+    } else {
+        let qq = &m.questions[0];
+        if !known_qtype(qq.qtype.into()) || !known_qclass(qq.qclass.into()) {
+            refused = true;
+            vec![Outcome { rcode: 5, ..nothing }]
+        } else {
+            world.outcomes(qq, mode, rd)
+        }
+    };
+    Expect::Std {
+        id,
+        rd,
+        questions: m.questions,
+        ra,
+        alts,
+        refused,
+    }
+}
+
+#[derive(Clone, Copy, Debug, Eq, PartialEq)]
+pub enum Transport {
+    Udp,
+    Tcp,
+}
+
+/// Records of a reply: all of them when it decodes, else (cut reply) the whole records it holds.
+struct Decoded {
+    flags1: u8,
+    flags2: u8,
+    questions: Option<Vec<Question>>,
+    answers: Vec<ResourceRecord>,
+    rest: Vec<ResourceRecord>,
+    complete: bool,
+}
+
+fn decode_reply(reply: &[u8]) -> Decoded {
+    let flags1 = reply[2];
+    let flags2 = reply[3];
+    match refwire::decode(reply) {
+        Ok(m) => {
+            let mut rest = m.authority;
+            rest.extend(m.additional);
+            Decoded {
+                flags1,
+                flags2,
+                questions: Some(m.questions),
+                answers: m.answers,
+                rest,
+                complete: true,
+            }
+        }
+        Err(_) => {
+            let an = u16::from_be_bytes([reply[6], reply[7]]) as usize;
+            let recs = refwire::decode_prefix_records(reply);
+            let k = an.min(recs.len());
+            Decoded {
+                flags1,
+                flags2,
+                questions: None,
+                answers: recs[..k].to_vec(),
+                rest: recs[k..].to_vec(),
+                complete: false,
+            }
+        }
+    }
+}
+
+fn sub_multiset(small: &[ResourceRecord], big: &[ResourceRecord], slack: bool) -> bool {
+    let mut pool: Vec<Option<&ResourceRecord>> = big.iter().map(Some).collect();
+    'outer: for r in small {
+        for slot in pool.iter_mut() {
+            if let Some(b) = slot {
+                if rr_matches(r, b, slack) {
+                    *slot = None;
+                    continue 'outer;
+                }
+            }
+        }
+        return false;
+    }
+    true
+}
+
+fn rr_matches(actual: &ResourceRecord, expected: &ResourceRecord, slack: bool) -> bool {
+    actual.name == expected.name
+        && actual.rtype_with_data == expected.rtype_with_data
+        && actual.rclass == expected.rclass
+        && if slack {
+            actual.ttl <= expected.ttl
+        } else {
+            actual.ttl == expected.ttl
+        }
+}
+
+fn same_multiset(a: &[ResourceRecord], b: &[ResourceRecord], slack: bool) -> bool {
+    a.len() == b.len() && sub_multiset(a, b, slack)
+}
+
+/// The statement's last clause: owners in the answer section are the question name or
+/// names reached from it through CNAME records of that same section.
+fn answer_owner_outsiders(qname: &DomainName, answers: &[ResourceRecord]) -> Vec<ResourceRecord> {
+    let mut allowed: Vec<DomainName> = vec![qname.clone()];
+    loop {
+        let mut grew = false;
+        for r in answers {
+            if let RecordTypeWithData::CNAME { cname } = &r.rtype_with_data {
+                if allowed.contains(&r.name) && !allowed.contains(cname) {
+                    allowed.push(cname.clone());
+                    grew = true;
+                }
+            }
+        }
+        if !grew {
+            break;
+        }
+    }
+    answers.iter().filter(|r| !allowed.contains(&r.name)).cloned().collect()
+}
+
+pub type Finding = (&'static str, String);
+
+fn show_rr(r: &ResourceRecord) -> String {
+    format!(
+        "{} {} {} {:?}",
+        r.name.to_dotted_string(),
+        r.ttl,
+        r.rtype_with_data.rtype(),
+        r.rtype_with_data
+    )
+    .chars()
+    .take(160)
+    .collect()
+}
+
+/// Compare what came back for one message with the expectation.
+pub fn judge(expect: &Expect, transport: Transport, replies: &[Vec<u8>]) -> Vec<Finding> {
+    let mut f: Vec<Finding> = Vec::new();
+    if let Expect::NoReply(why) = expect {
+        if !replies.is_empty() {
+            let clause = if why.starts_with("flagged") {
+                "reply-to-response"
+            } else {
+                "reply-to-short"
+            };
+            f.push((clause, format!("{} reply(ies) to a message {why}: {}", replies.len(), hex(&replies[0][..replies[0].len().min(40)]))));
+        }
+        return f;
+    }
+    if replies.is_empty() {
+        f.push(("no-reply", format!("no reply; expected {}", expect.label())));
+        return f;
+    }
+    if replies.len() > 1 {
+        f.push(("duplicate-reply", format!("{} replies to one message", replies.len())));
+    }
+    let reply = &replies[0];
+    if transport == Transport::Udp && reply.len() > 512 {
+        f.push(("udp-over-512", format!("UDP reply of {} bytes", reply.len())));
+    }
+    if reply.len() < 12 {
+        f.push(("reply-malformed", format!("reply of {} bytes", reply.len())));
+        return f;
+    }
+    let (eid, _) = match expect {
+        Expect::FormErr { id } | Expect::NotImp { id, .. } | Expect::Std { id, .. } => (*id, ()),
+        Expect::NoReply(_) => unreachable!(),
+    };
+    let rid = u16::from_be_bytes([reply[0], reply[1]]);
+    if rid != eid {
+        f.push(("id", format!("reply ID {rid:#06x}, request ID {eid:#06x}")));
+    }
+    let d = decode_reply(reply);
+    if d.flags1 & 0x80 == 0 {
+        f.push(("qr", "reply without the response flag".into()));
+    }
+    let tc = d.flags1 & 0x02 != 0;
+    let limit = if transport == Transport::Udp { 512 } else { 65535 };
+    if tc && reply.len() != limit {
+        f.push(("tc", format!("TC set on a {}-byte {:?} reply (nothing was cut)", reply.len(), transport)));
+    }
+    if !tc && !d.complete {
+        f.push(("tc", format!("{}-byte reply does not hold the records its header counts announce, TC clear", reply.len())));
+    }
+    let rcode = d.flags2 & 0x0f;
+    let opcode = (d.flags1 >> 3) & 0x0f;
+    let rd = d.flags1 & 1 != 0;
+    let ra = d.flags2 & 0x80 != 0;
+    let aa = d.flags1 & 0x04 != 0;
+    match expect {
+        Expect::NoReply(_) => {}
+        Expect::FormErr { .. } => {
+            if rcode != 1 {
+                f.push(("formerr", format!("unparseable input answered with RCODE {rcode}")));
+            }
+            if !d.answers.is_empty() || !d.rest.is_empty() {
+                f.push(("formerr", "FORMERR reply carries records".into()));
+            }
+        }
+        Expect::NotImp {
+            opcode: eop,
+            rd: erd,
+            questions,
+            ..
+        } => {
+            if rcode != 4 {
+                f.push(("notimp", format!("opcode {eop} answered with RCODE {rcode}")));
+            }
+            if opcode != *eop {
+                f.push(("echo-opcode", format!("opcode {opcode} in reply to opcode {eop}")));
+            }
+            if rd != *erd {
+                f.push(("echo-rd", format!("RD {rd} in reply to RD {erd}")));
+            }
+            if d.complete && d.questions.as_ref() != Some(questions) {
+                f.push(("echo-question", format!("question section {:?} in reply to {:?}", d.questions, questions)));
+            }
+        }
+        Expect::Std {
+            rd: erd,
+            questions,
+            ra: era,
+            alts,
+            refused,
+            ..
+        } => {
+            if opcode != 0 {
+                f.push(("echo-opcode", format!("opcode {opcode} in reply to a standard query")));
+            }
+            if rd != *erd {
+                f.push(("echo-rd", format!("RD {rd} in reply to RD {erd}")));
+            }
+            if d.complete && d.questions.as_ref() != Some(questions) {
+                f.push(("echo-question", format!("question section {:?} in reply to {:?}", d.questions, questions)));
+            }
+            if ra != *era {
+                f.push(("ra", format!("RA {ra}, recursion offered {era}")));
+            }
+            let fits = |o: &Outcome| -> bool {
+                if o.rcode != rcode || o.aa != aa {
+                    return false;
+                }
+                if d.complete {
+                    let auth: Vec<ResourceRecord> = d.rest.clone();
+                    same_multiset(&d.answers, &o.answers, o.ttl_slack) && same_multiset(&auth, &o.authority, o.ttl_slack)
+                } else {
+                    sub_multiset(&d.answers, &o.answers, o.ttl_slack) && sub_multiset(&d.rest, &o.authority, o.ttl_slack)
+                }
+            };
+            if !alts.iter().any(fits) {
+                let o = &alts[0];
+                let clause = if *refused { "refused" } else { "sections" };
+                f.push((
+                    clause,
+                    format!(
+                        "reply rcode={rcode} aa={aa} answers={} other={} [{}]; resolver produced rcode={} aa={} answers={} authority={} [{}]",
+                        d.answers.len(),
+                        d.rest.len(),
+                        d.answers.iter().chain(&d.rest).take(3).map(show_rr).collect::<Vec<_>>().join(" | "),
+                        o.rcode,
+                        o.aa,
+                        o.answers.len(),
+                        o.authority.len(),
+                        o.answers.iter().chain(&o.authority).take(3).map(show_rr).collect::<Vec<_>>().join(" | "),
+                    ),
+                ));
+            }
+            if let Some(q0) = questions.first() {
+                let outsiders = answer_owner_outsiders(&q0.name, &d.answers);
+                if !outsiders.is_empty() {
+                    f.push((
+                        "answer-owner",
+                        format!(
+                            "answer section of the reply to `{} {}` (AA={aa}) holds {} record(s) not owned by the question name or its CNAME chain, first: {}",
+                            q0.name.to_dotted_string(),
+                            q0.qtype,
+                            outsiders.len(),
+                            show_rr(&outsiders[0])
+                        ),
+                    ));
+                }
+            }
+        }
+    }
+    f
+}
+
+// =====================================================================================
+// TCP exchange
+// =====================================================================================
+
+#[derive(Clone, Copy, Debug, Eq, PartialEq)]
+pub enum CloseMode {
+    /// write, then close both directions at once (the reply cannot be observed)
+    Close,
+    /// write, shut down the sending side, read to end of stream
+    HalfClose,
+    /// write, keep the connection open and read; only then shut down and read the rest
+    KeepOpen,
+}
+
+impl CloseMode {
+    fn name(self) -> &'static str {
+        match self {
+            CloseMode::Close => "close",
+            CloseMode::HalfClose => "half-close",
+            CloseMode::KeepOpen => "keep-open",
+        }
+    }
+    fn from_name(s: &str) -> CloseMode {
+        match s {
+            "close" => CloseMode::Close,
+            "keep-open" => CloseMode::KeepOpen,
+            _ => CloseMode::HalfClose,
+        }
+    }
+}
+
+#[derive(Debug, Default, Clone)]
+pub struct TcpObs {
+    pub stream: Vec<u8>,
+    pub connect_failed: bool,
+    pub reset: bool,
+    /// bytes received while our sending side was still open
+    pub early: usize,
+}
+
+/// What the server has been given, from the octets written to the connection:
+/// (message, short_read).  `None`: not even a complete length prefix.
+pub fn tcp_delivered(sent: &[u8]) -> Option<(Vec<u8>, bool)> {
+    if sent.len() < 2 {
+        return None;
+    }
+    let declared = u16::from_be_bytes([sent[0], sent[1]]) as usize;
+    let have = sent.len() - 2;
+    if have < declared {
+        Some((sent[2..].to_vec(), true))
+    } else {
+        Some((sent[2..2 + declared].to_vec(), false))
+    }
+}
+
+fn read_all(s: &mut TcpStream, out: &mut Vec<u8>, total: Duration, reset: &mut bool) {
+    let deadline = Instant::now() + total;
+    let mut buf = vec![0u8; 70000];
+    loop {
+        let now = Instant::now();
+        if now >= deadline {
+            return;
+        }
+        let _ = s.set_read_timeout(Some((deadline - now).max(Duration::from_millis(1))));
+        match s.read(&mut buf) {
+            Ok(0) => return,
+            Ok(k) => out.extend_from_slice(&buf[..k]),
+            Err(e) => match e.kind() {
+                std::io::ErrorKind::WouldBlock | std::io::ErrorKind::TimedOut => return,
+                std::io::ErrorKind::Interrupted => {}
+                _ => {
+                    *reset = true;
+                    return;
+                }
+            },
+        }
+    }
+}
+
+pub fn tcp_exchange(addr: SocketAddr, segments: &[Vec<u8>], gap_ms: u64, mode: CloseMode) -> TcpObs {
+    let mut obs = TcpObs::default();
+    let mut s = match TcpStream::connect_timeout(&addr, Duration::from_secs(3)) {
+        Ok(s) => s,
+        Err(_) => {
+            obs.connect_failed = true;
+            return obs;
+        }
+    };
+    let _ = s.set_nodelay(true);
+    let _ = s.set_write_timeout(Some(Duration::from_secs(3)));
+    let mut sent: Vec<u8> = Vec::new();
+    for (i, seg) in segments.iter().enumerate() {
+        if i > 0 && gap_ms > 0 {
+            std::thread::sleep(Duration::from_millis(gap_ms));
+        }
+        let _ = s.write_all(seg);
+        let _ = s.flush();
+        sent.extend_from_slice(seg);
+    }
+    match mode {
+        CloseMode::Close => {
+            let _ = s.shutdown(Shutdown::Both);
+        }
+        CloseMode::HalfClose => {
+            let _ = s.shutdown(Shutdown::Write);
+            read_all(&mut s, &mut obs.stream, Duration::from_secs(4), &mut obs.reset);
+        }
+        CloseMode::KeepOpen => {
+            let complete = matches!(tcp_delivered(&sent), Some((_, false)));
+            if complete {
+                // the server has the whole message: whatever it answers must come now
+                read_all(&mut s, &mut obs.stream, Duration::from_secs(4), &mut obs.reset);
+                obs.early = obs.stream.len();
+            } else {
+                let mut r = false;
+                read_all(&mut s, &mut obs.stream, Duration::from_millis(25), &mut r);
+                obs.early = obs.stream.len();
+            }
+            let _ = s.shutdown(Shutdown::Write);
+            if !obs.reset {
+                read_all(&mut s, &mut obs.stream, Duration::from_secs(4), &mut obs.reset);
+            }
+        }
+    }
+    obs
+}
+
+/// Judge one TCP connection.  `sent` = all octets written.
+pub fn judge_tcp(world: &World, mode: Mode, sent: &[u8], close: CloseMode, obs: &TcpObs) -> (Expect, Vec<Finding>) {
+    let expect = match tcp_delivered(sent) {
+        None => Expect::NoReply("too short to hold an ID"),
+        Some((msg, short)) => reference(world, mode, &msg, short),
+    };
+    let mut f = Vec::new();
+    if obs.connect_failed {
+        f.push(("liveness", "TCP connection refused / timed out".to_string()));
+        return (expect, f);
+    }
+    if close == CloseMode::Close {
+        return (expect, f);
+    }
+    let mut replies: Vec<Vec<u8>> = Vec::new();
+    if !obs.stream.is_empty() {
+        if obs.stream.len() < 2 {
+            f.push(("tcp-length-prefix", format!("{} octet(s) came back", obs.stream.len())));
+            return (expect, f);
+        }
+        let declared = u16::from_be_bytes([obs.stream[0], obs.stream[1]]) as usize;
+        let have = obs.stream.len() - 2;
+        if declared != have {
+            f.push((
+                "tcp-length-prefix",
+                format!("length prefix {declared}, {have} octets follow"),
+            ));
+        }
+        replies.push(obs.stream[2..2 + declared.min(have)].to_vec());
+    }
+    f.extend(judge(&expect, Transport::Tcp, &replies));
+    (expect, f)
+}
+
+// =====================================================================================
+// Alphabets
+// =====================================================================================
+
+pub const N_SHAPES: usize = 12;
+const SHAPE_NAMES: [&str; N_SHAPES] = [
+    "0 questions",
+    "1 known (www A IN)",
+    "1 unknown type (TYPE65280)",
+    "1 unknown class (CLASS2)",
+    "qtype ANY",
+    "2 questions",
+    "qtype AXFR",
+    "missing name (nx A)",
+    "name below a delegation (deep.sub A)",
+    "alias chain (alias1 A)",
+    "hosts-file name (host1.lan A)",
+    "www A with an OPT record",
+];
+
+fn shape_msg(shape: usize, flags: u16, id: u16) -> Vec<u8> {
+    let w = "www.c9.test.";
+    match shape {
+        0 => build_msg(id, flags, &[], &[], None),
+        1 => build_msg(id, flags, &[q(w, 1, 1)], &[], None),
+        2 => build_msg(id, flags, &[q(w, 65280, 1)], &[], None),
+        3 => build_msg(id, flags, &[q(w, 1, 2)], &[], None),
+        4 => build_msg(id, flags, &[q(w, 255, 1)], &[], None),
+        5 => build_msg(id, flags, &[q(w, 1, 1), q("ns.c9.test.", 1, 1)], &[], None),
+        6 => build_msg(id, flags, &[q(w, 252, 1)], &[], None),
+        7 => build_msg(id, flags, &[q("nx.c9.test.", 1, 1)], &[], None),
+        8 => build_msg(id, flags, &[q("deep.sub.c9.test.", 1, 1)], &[], None),
+        9 => build_msg(id, flags, &[q("alias1.c9.test.", 1, 1)], &[], None),
+        10 => build_msg(id, flags, &[q("host1.lan.", 1, 1)], &[], None),
+        _ => build_msg(id, flags, &[q(w, 1, 1)], &raw_rr(&[0], 41, 1232, 0, 0, &[]), Some([1, 0, 0, 1])),
+    }
+}
+
+/// A record in wire form with an uncompressed owner.
+fn raw_rr(owner: &[u8], rtype: u16, class: u16, ttl: u32, rdlength: u16, rdata: &[u8]) -> Vec<u8> {
+    let mut v = owner.to_vec();
+    v.extend_from_slice(&rtype.to_be_bytes());
+    v.extend_from_slice(&class.to_be_bytes());
+    v.extend_from_slice(&ttl.to_be_bytes());
+    v.extend_from_slice(&rdlength.to_be_bytes());
+    v.extend_from_slice(rdata);
+    v
+}
+
+/// The deepest pointer ladder that fits below offset `limit` (pointer targets are 14-bit),
+/// carried in the RDATA of a NULL record and entered from the owner of a second record.
+pub fn ladder_msg(id: u16, limit: usize) -> (Vec<u8>, usize) {
+    let mut m = build_msg(id, 0, &[q_www_a()], &[], Some([1, 0, 0, 2]));
+    // NULL record, owner root
+    m.push(0);
+    m.extend_from_slice(&10u16.to_be_bytes());
+    m.extend_from_slice(&1u16.to_be_bytes());
+    m.extend_from_slice(&0u32.to_be_bytes());
+    let rdlen_at = m.len();
+    m.extend_from_slice(&[0, 0]);
+    let rd_start = m.len();
+    m.push(0); // a root name: the foot of the ladder
+    let mut prev = rd_start;
+    let mut hops = 0usize;
+    while m.len() + 2 <= limit.min(0x3fff) {
+        let at = m.len();
+        m.push(0xc0 | (prev >> 8) as u8);
+        m.push(prev as u8);
+        prev = at;
+        hops += 1;
+    }
+    let rdlen = m.len() - rd_start;
+    m[rdlen_at] = (rdlen >> 8) as u8;
+    m[rdlen_at + 1] = rdlen as u8;
+    // second record: owner = pointer to the top of the ladder
+    let owner = [0xc0 | (prev >> 8) as u8, prev as u8];
+    m.extend_from_slice(&raw_rr(&owner, 1, 1, 0, 4, &[192, 0, 2, 99]));
+    (m, hops + 1)
+}
+
+fn long_name(total: usize) -> Vec<u8> {
+    // labels of 63 octets until `total` wire octets (incl. the root octet) are reached
+    let mut v = Vec::new();
+    let mut left = total - 1;
+    while left > 0 {
+        let l = (left - 1).min(63);
+        if l == 0 {
+            // cannot place a zero-length label: extend the previous one instead
+            break;
+        }
+        v.push(l as u8);
+        v.extend(std::iter::repeat(b'a').take(l));
+        left -= l + 1;
+    }
+    v.push(0);
+    v
+}
+
+pub const QUESTION_NAMES: [&str; 22] = [
+    "www.c9.test.",
+    "c9.test.",
+    "ns.c9.test.",
+    "alias1.c9.test.",
+    "alias2.c9.test.",
+    "ext.c9.test.",
+    "dangling.c9.test.",
+    "x.wild.c9.test.",
+    "a.b.wild.c9.test.",
+    "wild.c9.test.",
+    "nx.c9.test.",
+    "sub.c9.test.",
+    "deep.sub.c9.test.",
+    "WwW.C9.TeSt.",
+    "www.other.test.",
+    "other.test.",
+    ".",
+    "host1.lan.",
+    "blocked.lan.",
+    "nohost.lan.",
+    "huge.c9.test.",
+    "test.",
+];
+const QTYPES: [u16; 9] = [1, 2, 5, 6, 15, 16, 28, 255, 252];
+
+/// (class label, message with ID 0).  Every message is at most 512 octets.
+pub fn misc_messages(tier: Tier) -> Vec<(String, Vec<u8>)> {
+    let mut out: Vec<(String, Vec<u8>)> = Vec::new();
+    let base = build_msg(0, FLAG_RD, &[q_www_a()], &[], None);
+    // every prefix of a valid query, of a two-question message and of a query with an OPT record
+    let opt = raw_rr(&[0], 41, 1232, 0, 0, &[]);
+    let with_opt = build_msg(0, FLAG_RD, &[q_www_a()], &opt, Some([1, 0, 0, 1]));
+    let two = build_msg(0, 0, &[q_www_a(), q("ns.c9.test.", 16, 1)], &[], None);
+    let mut resp_like = build_msg(0, 0x8000, &[q_www_a()], &[], None);
+    resp_like.extend_from_slice(&[]);
+    for (tag, m) in [("query", &base), ("query+OPT", &with_opt), ("two-questions", &two), ("response", &resp_like)] {
+        for l in 0..=m.len() {
+            out.push((format!("prefix {l}/{} of {tag}", m.len()), m[..l].to_vec()));
+        }
+    }
+    // questions about the served configuration
+    for name in QUESTION_NAMES {
+        for qt in QTYPES {
+            for rd in [0u16, FLAG_RD] {
+                out.push((
+                    format!("question {name} TYPE{qt} rd={}", rd != 0),
+                    build_msg(0, rd, &[q(name, qt, 1)], &[], None),
+                ));
+            }
+        }
+        out.push((format!("question {name} A class ANY"), build_msg(0, 0, &[q(name, 1, 255)], &[], None)));
+    }
+    for i in 0..BIG_FAMILY {
+        let name = format!("s{i:02}.c9.test.");
+        out.push((format!("question {name} TXT (size family)"), build_msg(0, 0, &[q(&name, 16, 1)], &[], None)));
+    }
+    // unknown types / classes beyond the one of the flag sweep
+    for t in [0u16, 17, 41, 99, 251, 256, 65535] {
+        out.push((format!("qtype {t}"), build_msg(0, 0, &[q("www.c9.test.", t, 1)], &[], None)));
+    }
+    for c in [0u16, 2, 3, 4, 254, 256, 65535] {
+        out.push((format!("qclass {c}"), build_msg(0, 0, &[q("www.c9.test.", 1, c)], &[], None)));
+    }
+    // malformed classes (C03's deviation classes, once each)
+    let w = name_wire("www.c9.test.");
+    let hdr = |counts: [u16; 4]| build_msg(0, 0, &[], &[], Some(counts));
+    let mut add = |label: &str, mut m: Vec<u8>, tail: &[u8]| {
+        m.extend_from_slice(tail);
+        out.push((format!("malformed: {label}"), m));
+    };
+    for lt in [0x40u8, 0x7f, 0x80, 0xbf] {
+        add(&format!("label type {lt:#04x}"), hdr([1, 0, 0, 0]), &[lt, b'a', 0, 0, 1, 0, 1]);
+    }
+    add("pointer to itself", hdr([1, 0, 0, 0]), &[0xc0, 12, 0, 1, 0, 1]);
+    add("pointer forwards", hdr([1, 0, 0, 0]), &[0xc0, 20, 0, 1, 0, 1, 0, 0, 0, 0]);
+    add("pointer into the header", hdr([1, 0, 0, 0]), &[0xc0, 0, 0, 1, 0, 1]);
+    add("pointer into the header (count field)", hdr([1, 0, 0, 0]), &[0xc0, 4, 0, 1, 0, 1]);
+    add("pointer past the end", hdr([1, 0, 0, 0]), &[0xc0, 0xff, 0, 1, 0, 1]);
+    add("pointer loop of two", hdr([1, 0, 0, 0]), &[0xc0, 14, 0xc0, 12, 0, 1, 0, 1]);
+    add("label then pointer into own label", hdr([1, 0, 0, 0]), &[1, b'a', 0xc0, 12, 0, 1, 0, 1]);
+    add("label runs past the end", hdr([1, 0, 0, 0]), &[9, b'a', b'b']);
+    add("name without terminator", hdr([1, 0, 0, 0]), &[1, b'a', 1, b'b']);
+    add("question without type/class", hdr([1, 0, 0, 0]), &w);
+    add("question with half a class", hdr([1, 0, 0, 0]), &[w.as_slice(), &[0, 1, 0]].concat());
+    add("qdcount 1, no question", hdr([1, 0, 0, 0]), &[]);
+    add("qdcount 65535, no payload", hdr([65535, 0, 0, 0]), &[]);
+    add("all counts 65535, no payload", hdr([65535, 65535, 65535, 65535]), &[]);
+    add("ancount 1, no record", build_msg(0, 0, &[q_www_a()], &[], Some([1, 1, 0, 0])), &[]);
+    add("arcount 1, no record", build_msg(0, 0, &[q_www_a()], &[], Some([1, 0, 0, 1])), &[]);
+    let q256 = Q { name: long_name(256), qtype: 1, qclass: 1 };
+    let q255 = Q { name: long_name(255), qtype: 1, qclass: 1 };
+    add("name of 256 octets", build_msg(0, 0, &[q256], &[], None), &[]);
+    add("name of 255 octets (valid)", build_msg(0, 0, &[q255], &[], None), &[]);
+    for (label, rdlen, rdata) in [
+        ("A with RDLENGTH 3", 3u16, vec![1u8, 2, 3]),
+        ("A with RDLENGTH 5", 5, vec![1, 2, 3, 4, 5]),
+        ("A with RDLENGTH 0", 0, vec![]),
+        ("A with RDLENGTH 65535", 65535, vec![1, 2, 3, 4]),
+        ("A with RDLENGTH 4 (valid)", 4, vec![1, 2, 3, 4]),
+    ] {
+        let r = raw_rr(&w, 1, 1, 0, rdlen, &rdata);
+        add(label, build_msg(0, 0, &[q_www_a()], &r, Some([1, 0, 0, 1])), &[]);
+    }
+    let mx_bad = raw_rr(&w, 15, 1, 0, 3, &[0, 10, 0xc0]);
+    add("MX whose exchange is cut by RDLENGTH", build_msg(0, 0, &[q_www_a()], &mx_bad, Some([1, 0, 0, 1])), &[]);
+    let soa_short = raw_rr(&w, 6, 1, 0, 6, &[0, 0, 0, 0, 0, 1]);
+    add("SOA with 6 octets of RDATA", build_msg(0, 0, &[q_www_a()], &soa_short, Some([1, 0, 0, 1])), &[]);
+    let unk = raw_rr(&w, 65280, 7, 5, 3, &[9, 9, 9]);
+    add("unknown-type record in additional (valid)", build_msg(0, 0, &[q_www_a()], &unk, Some([1, 0, 0, 1])), &[]);
+    add("trailing garbage after the question (valid)", build_msg(0, 0, &[q_www_a()], &[0xde, 0xad, 0xbe, 0xef], None), &[]);
+    let mut padded = build_msg(0, 0, &[q_www_a()], &[], None);
+    padded.resize(512, 0);
+    add("query padded with zeros to 512 octets (valid)", padded, &[]);
+    let mut ff = build_msg(0, 0, &[q_www_a()], &[], None);
+    ff.resize(512, 0xff);
+    add("query padded with 0xff to 512 octets (valid)", ff, &[]);
+    add("512 octets of 0xff after the ID", {
+        let mut m = vec![0u8, 0];
+        m.resize(512, 0xff);
+        m[2] = 0x7f; // QR clear
+        m
+    }, &[]);
+    add("512 zero octets", vec![0u8; 512], &[]);
+    let (lad, _) = ladder_msg(0, 512 - 16);
+    add("pointer ladder filling a datagram (valid)", lad, &[]);
+    // questions in compressed form: second question name points at the first
+    let mut cq = build_msg(0, 0, &[q_www_a()], &[], Some([2, 0, 0, 0]));
+    cq.extend_from_slice(&[0xc0, 12, 0, 16, 0, 1]);
+    add("two questions, second name compressed (valid)", cq, &[]);
+    let mut cq1 = build_msg(0, 0, &[], &[], Some([1, 0, 0, 0]));
+    cq1.extend_from_slice(&[3, b'w', b'w', b'w', 0xc0, 18, 2, b'c', b'9', 4, b't', b'e', b's', b't', 0, 0, 1, 0, 1]);
+    add("question name with a forward pointer", cq1, &[]);
+    if tier == Tier::Thorough {
+        // every single-octet truncation and every bit flip of the OPT query
+        for i in 0..with_opt.len() {
+            for bit in 0..8 {
+                let mut m = with_opt.clone();
+                m[i] ^= 1 << bit;
+                if i < 2 {
+                    continue;
+                }
+                out.push((format!("bit flip {i}.{bit} of query+OPT"), m));
+            }
+        }
+        // every single-octet substitution of the plain query (ID octets excepted)
+        for i in 2..base.len() {
+            for v in 0..=255u8 {
+                if v == base[i] {
+                    continue;
+                }
+                let mut m = base.clone();
+                m[i] = v;
+                out.push((format!("octet {i} of the query set to {v:#04x}"), m));
+            }
+        }
+    }
+    out
+}
+
+/// The 40 message classes whose ordered pairs are sent back to back.
+pub fn pair_alphabet() -> Vec<(String, Vec<u8>)> {
+    let mut v: Vec<(String, Vec<u8>)> = Vec::new();
+    let mut add = |l: &str, m: Vec<u8>| v.push((l.to_string(), m));
+    let qq = |n: &str, t: u16, f: u16| build_msg(0, f, &[q(n, t, 1)], &[], None);
+    add("www A", qq("www.c9.test.", 1, 0));
+    add("www A rd", qq("www.c9.test.", 1, FLAG_RD));
+    add("www TXT", qq("www.c9.test.", 16, 0));
+    add("www ANY", qq("www.c9.test.", 255, 0));
+    add("www AXFR", qq("www.c9.test.", 252, 0));
+    add("www MX (nodata)", qq("www.c9.test.", 15, 0));
+    add("nx A (nxdomain)", qq("nx.c9.test.", 1, 0));
+    add("alias1 A (chain)", qq("alias1.c9.test.", 1, 0));
+    add("ext A rd (chain leaving)", qq("ext.c9.test.", 1, FLAG_RD));
+    add("wildcard A", qq("x.wild.c9.test.", 1, 0));
+    add("delegation A", qq("deep.sub.c9.test.", 1, 0));
+    add("apex SOA", qq("c9.test.", 6, 0));
+    add("apex NS", qq("c9.test.", 2, 0));
+    add("hosts A", qq("host1.lan.", 1, 0));
+    add("outside A", qq("nohost.lan.", 1, 0));
+    add("outside A rd", qq("www.other.test.", 1, FLAG_RD));
+    add("s20 TXT (cut)", qq("s20.c9.test.", 16, 0));
+    add("s00 TXT (fits)", qq("s00.c9.test.", 16, 0));
+    add("huge TXT (cut)", qq("huge.c9.test.", 16, 0));
+    add("mixed case", qq("WwW.C9.TeSt.", 1, 0));
+    add("0 questions", build_msg(0, 0, &[], &[], None));
+    add("2 questions", build_msg(0, 0, &[q_www_a(), q("ns.c9.test.", 1, 1)], &[], None));
+    add("unknown type", qq("www.c9.test.", 65280, 0));
+    add("unknown class", build_msg(0, 0, &[q("www.c9.test.", 1, 2)], &[], None));
+    add("class ANY", build_msg(0, 0, &[q("www.c9.test.", 1, 255)], &[], None));
+    add("opcode 1", qq("www.c9.test.", 1, 1 << 11));
+    add("opcode 2 rd", qq("www.c9.test.", 1, (2 << 11) | FLAG_RD));
+    add("opcode 15, no question", build_msg(0, 15 << 11, &[], &[], None));
+    add("response", qq("www.c9.test.", 1, 0x8000));
+    add("response, opcode 5, rcode 3", qq("www.c9.test.", 1, 0x8000 | (5 << 11) | 3));
+    add("query with AA TC RA Z rcode bits", qq("www.c9.test.", 1, 0x06ff));
+    add("empty datagram", vec![]);
+    add("one octet", vec![0]);
+    add("two octets", vec![0, 0]);
+    add("eleven octets", vec![0; 11]);
+    add("header promising a question", build_msg(0, 0, &[], &[], Some([1, 0, 0, 0])));
+    let mut cutq = qq("www.c9.test.", 1, 0);
+    cutq.truncate(cutq.len() - 3);
+    add("question cut short", cutq);
+    let mut bad = build_msg(0, 0, &[], &[], Some([1, 0, 0, 0]));
+    bad.extend_from_slice(&[0x40, b'a', 0, 0, 1, 0, 1]);
+    add("label type 0x40", bad);
+    let mut selfp = build_msg(0, 0, &[], &[], Some([1, 0, 0, 0]));
+    selfp.extend_from_slice(&[0xc0, 12, 0, 1, 0, 1]);
+    add("pointer to itself", selfp);
+    let opt = raw_rr(&[0], 41, 1232, 0, 0, &[]);
+    add("query with OPT", build_msg(0, FLAG_RD, &[q_www_a()], &opt, Some([1, 0, 0, 1])));
+    v
+}
+
+pub struct TcpCase {
+    pub label: String,
+    pub segments: Vec<Vec<u8>>,
+    pub gap_ms: u64,
+    pub close: CloseMode,
+}
+
+fn framed(m: &[u8]) -> Vec<u8> {
+    let mut v = (m.len() as u16).to_be_bytes().to_vec();
+    v.extend_from_slice(m);
+    v
+}
+
+/// TCP framing cases; IDs are assigned from `id0` upwards so that every connection
+/// carries its own.
+pub fn tcp_cases(tier: Tier, id0: u16) -> Vec<TcpCase> {
+    let mut out = Vec::new();
+    let mut id = id0;
+    let mut next_id = || {
+        id = id.wrapping_add(1);
+        if id >= SENTINEL_LO {
+            id = 1;
+        }
+        id
+    };
+    let l = build_msg(0, FLAG_RD, &[q_www_a()], &[], None).len();
+    let declared: Vec<usize> = vec![0, 1, 2, 11, 12, l - 1, l, l + 1, 65535];
+    let bases: Vec<(&str, u16)> = if tier == Tier::Thorough {
+        vec![("query", FLAG_RD), ("response", 0x8000 | FLAG_RD), ("opcode-2", 2 << 11)]
+    } else {
+        vec![("query", FLAG_RD), ("response", 0x8000 | FLAG_RD)]
+    };
+    for (tag, flags) in &bases {
+        for &d in &declared {
+            for sent in 0..=l {
+                for close in [CloseMode::Close, CloseMode::HalfClose, CloseMode::KeepOpen] {
+                    if *tag != "query" && (close == CloseMode::Close || ![0usize, 2, 3, 12, l - 1, l].contains(&sent)) && tier == Tier::Quick {
+                        continue;
+                    }
+                    let m = build_msg(next_id(), *flags, &[q_www_a()], &[], None);
+                    let mut s = (d as u16).to_be_bytes().to_vec();
+                    s.extend_from_slice(&m[..sent]);
+                    out.push(TcpCase {
+                        label: format!("{tag}: declared {d}, sent {sent} of {l}, {}", close.name()),
+                        segments: vec![s],
+                        gap_ms: 0,
+                        close,
+                    });
+                }
+            }
+        }
+    }
+    // nothing / half a length prefix
+    for close in [CloseMode::Close, CloseMode::HalfClose, CloseMode::KeepOpen] {
+        out.push(TcpCase { label: format!("no octets, {}", close.name()), segments: vec![vec![]], gap_ms: 0, close });
+        out.push(TcpCase { label: format!("one octet of the length prefix, {}", close.name()), segments: vec![vec![0]], gap_ms: 0, close });
+    }
+    // every two-segment split of a framed valid query
+    let fr_len = l + 2;
+    for k in 1..fr_len {
+        let fr = framed(&build_msg(next_id(), FLAG_RD, &[q_www_a()], &[], None));
+        out.push(TcpCase {
+            label: format!("framed query split after {k} of {fr_len} octets"),
+            segments: vec![fr[..k].to_vec(), fr[k..].to_vec()],
+            gap_ms: 3,
+            close: if k % 2 == 0 { CloseMode::HalfClose } else { CloseMode::KeepOpen },
+        });
+    }
+    // the deepest pointer ladder
+    let (lad, hops) = ladder_msg(next_id(), 0x3fff);
+    out.push(TcpCase {
+        label: format!("pointer ladder of {hops} hops in a {}-octet message", lad.len()),
+        segments: vec![framed(&lad)],
+        gap_ms: 0,
+        close: CloseMode::HalfClose,
+    });
+    // a maximal message: 65535 octets, valid query followed by padding
+    let mut maxm = build_msg(next_id(), 0, &[q_www_a()], &[], None);
+    maxm.resize(65535, 0);
+    out.push(TcpCase {
+        label: "valid query padded to 65535 octets".into(),
+        segments: vec![framed(&maxm)],
+        gap_ms: 0,
+        close: CloseMode::HalfClose,
+    });
+    // two messages on one connection (D10: only the first is judged, through tcp_delivered)
+    let mut twice = framed(&build_msg(next_id(), 0, &[q_www_a()], &[], None));
+    twice.extend_from_slice(&framed(&build_msg(next_id(), 0, &[q("ns.c9.test.", 1, 1)], &[], None)));
+    out.push(TcpCase {
+        label: "two framed queries on one connection (first judged, D10)".into(),
+        segments: vec![twice],
+        gap_ms: 0,
+        close: CloseMode::HalfClose,
+    });
+    out
+}
+
+// =====================================================================================
+// The forwarder the recursive-capable server is pointed at
+// =====================================================================================
+
+pub struct Forwarder {
+    pub addr: SocketAddr,
+    stop: Arc<AtomicBool>,
+    pub served: Arc<AtomicU64>,
+}
+
+impl Drop for Forwarder {
+    fn drop(&mut self) {
+        self.stop.store(true, Ordering::SeqCst);
+    }
+}
+
+/// Answers every query: `qname A 192.0.2.53` (TTL 300) for qtype A / ANY, an empty NOERROR
+/// reply otherwise.
+pub fn start_forwarder() -> Result<Forwarder, String> {
+    let sock = UdpSocket::bind((Ipv4Addr::LOCALHOST, 0)).map_err(|e| format!("forwarder: {e}"))?;
+    let addr = sock.local_addr().map_err(|e| format!("forwarder: {e}"))?;
+    let _ = sock.set_read_timeout(Some(Duration::from_millis(100)));
+    let stop = Arc::new(AtomicBool::new(false));
+    let served = Arc::new(AtomicU64::new(0));
+    let (stop2, served2) = (stop.clone(), served.clone());
+    std::thread::spawn(move || {
+        let mut buf = [0u8; 1500];
+        while !stop2.load(Ordering::SeqCst) {
+            let Ok((n, peer)) = sock.recv_from(&mut buf) else {
+                continue;
+            };
+            let Ok(m) = refwire::decode(&buf[..n]) else {
+                continue;
+            };
+            if m.header.is_response {
+                continue;
+            }
+            let mut r = m.make_response();
+            r.header.recursion_available = true;
+            if let Some(q0) = m.questions.first() {
+                let t: u16 = q0.qtype.into();
+                if t == 1 || t == 255 {
+                    r.answers.push(ResourceRecord {
+                        name: q0.name.clone(),
+                        rtype_with_data: RecordTypeWithData::A {
+                            address: Ipv4Addr::new(192, 0, 2, 53),
+                        },
+                        rclass: RecordClass::IN,
+                        ttl: 300,
+                    });
+                }
+            }
+            let bytes = refwire::encode(&r, refwire::Compress::None);
+            let _ = sock.send_to(&bytes, peer);
+            served2.fetch_add(1, Ordering::Relaxed);
+        }
+    });
+    Ok(Forwarder { addr, stop, served })
+}
+
+// =====================================================================================
+// Work items
+// =====================================================================================
+
+#[derive(Clone, Debug)]
+enum Item {
+    Flags { mode: Mode, shape: usize, lo: u32, hi: u32 },
+    Misc { mode: Mode, lo: usize, hi: usize },
+    Tcp { mode: Mode, lo: usize, hi: usize },
+    /// ordered tuples (pairs, triples) of the pair alphabet, back to back on one socket
+    Pairs { mode: Mode, arity: usize, lo: usize, hi: usize },
+}
+
+#[derive(Default)]
+struct ItemResult {
+    messages: u64,
+    pairs: u64,
+    compared: u64,
+    nontrivial: u64,
+    retried: u64,
+    not_judged_reset: u64,
+    hist: BTreeMap<String, u64>,
+    violations: Vec<Violation>,
+    samples: Vec<Value>,
+    dead: bool,
+    distinct: HashSet<u64>,
+    /// full (TCP) reply length per size-family question
+    family_sizes: BTreeMap<String, usize>,
+    /// messages of the item, for the search after a crash
+    sent_for_bisect: Vec<(Transport, Vec<u8>)>,
+    /// violations of the item per clause (only the first few are materialised)
+    vcount: BTreeMap<String, u64>,
+}
+
+const PER_ITEM_CLAUSE_CAP: u64 = 4;
+
+impl ItemResult {
+    /// True when a violation of this clause should still be written out in full.
+    fn admit(&mut self, clause: &str) -> bool {
+        let n = self.vcount.entry(clause.to_string()).or_insert(0);
+        *n += 1;
+        *n <= PER_ITEM_CLAUSE_CAP
+    }
+}
+
+struct Env<'a> {
+    world: &'a World,
+    addr: BTreeMap<Mode, SocketAddr>,
+    misc: &'a [(String, Vec<u8>)],
+    tcp: &'a [TcpCase],
+    pairs: &'a [(String, Vec<u8>)],
+    deadline: Instant,
+    sems: BTreeMap<Mode, Sem>,
+    window: usize,
+    /// set once a server stopped answering: the rest of its work is pointless
+    down: BTreeMap<Mode, AtomicBool>,
+}
+
+fn slug_for(clause: &str, msg: &[u8], short: bool) -> Option<&'static str> {
+    match clause {
+        "referral-in-answer-section" => Some("referral-in-answer-section"),
+        "reply-to-response" => {
+            if short || refwire::decode(msg).is_err() {
+                Some("formerr-reply-to-malformed-response")
+            } else {
+                None
+            }
+        }
+        _ => None,
+    }
+}
+
+/// Narrow the generic owner clause to the anticipated family: the outsiders are the NS
+/// set of one proper ancestor of the question name, sent with AA in a NOERROR reply.
+fn refine_findings(expect: &Expect, replies: &[Vec<u8>], findings: Vec<Finding>) -> Vec<Finding> {
+    let mut out = Vec::new();
+    for (clause, text) in findings {
+        if clause == "answer-owner" {
+            if let (Expect::Std { questions, .. }, Some(reply)) = (expect, replies.first()) {
+                if let (Some(q0), true) = (questions.first(), reply.len() >= 12) {
+                    let d = decode_reply(reply);
+                    let outsiders = answer_owner_outsiders(&q0.name, &d.answers);
+                    let one_owner = outsiders.iter().all(|r| r.name == outsiders[0].name);
+                    let all_ns = outsiders.iter().all(|r| matches!(r.rtype_with_data, RecordTypeWithData::NS { .. }));
+                    let ancestor = q0.name != outsiders[0].name && q0.name.is_subdomain_of(&outsiders[0].name);
+                    let aa = d.flags1 & 0x04 != 0;
+                    let noerror = d.flags2 & 0x0f == 0;
+                    if one_owner && all_ns && ancestor && aa && noerror && outsiders.len() == d.answers.len() {
+                        out.push(("referral-in-answer-section", text));
+                        continue;
+                    }
+                }
+            }
+        }
+        out.push((clause, text));
+    }
+    out
+}
+
+fn udp_violation(mode: Mode, label: &str, msgs: &[&Vec<u8>], which: usize, clause: &'static str, text: &str) -> Violation {
+    Violation {
+        clause: clause.to_string(),
+        summary: format!("[{} UDP] {label}: {text} (message {})", mode.name(), hex(&msgs[which][..msgs[which].len().min(48)])),
+        replay: json!({
+            "mode": mode.name(),
+            "transport": "udp",
+            "label": label,
+            "msgs": msgs.iter().map(|m| hex(m)).collect::<Vec<_>>(),
+        }),
+        slug: slug_for(clause, msgs[which], false),
+    }
+}
+
+fn note_distinct(res: &mut ItemResult, mode: Mode, t: Transport, m: &[u8]) {
+    let mut k = vec![mode as u8, t as u8];
+    k.extend_from_slice(m);
+    if k.len() >= 4 {
+        k[2] = 0;
+        k[3] = 0;
+    }
+    res.distinct.insert(fnv64(&k));
+}
+
+fn is_nontrivial(e: &Expect) -> bool {
+    match e {
+        Expect::Std { alts, refused, .. } => *refused || alts[0].rcode != 0 || alts.len() > 1,
+        _ => true,
+    }
+}
+
+fn run_item(env: &Env, item: &Item) -> ItemResult {
+    let mut res = ItemResult::default();
+    if Instant::now() > env.deadline {
+        res.hist.insert("skipped (wall-clock cap)".into(), 1);
+        return res;
+    }
+    let item_mode = match item {
+        Item::Flags { mode, .. } | Item::Misc { mode, .. } | Item::Tcp { mode, .. } | Item::Pairs { mode, .. } => *mode,
+    };
+    if env.down[&item_mode].load(Ordering::SeqCst) {
+        res.hist.insert(format!("{}/skipped (server down)", item_mode.name()), 1);
+        return res;
+    }
+    let res = run_item_inner(env, item);
+    if res.dead {
+        env.down[&item_mode].store(true, Ordering::SeqCst);
+    }
+    res
+}
+
+fn run_item_inner(env: &Env, item: &Item) -> ItemResult {
+    let mut res = ItemResult::default();
+    match item {
+        Item::Flags { mode, shape, lo, hi } => {
+            let addr = env.addr[mode];
+            let msgs: Vec<Vec<u8>> = (*lo..*hi).map(|f| shape_msg(*shape, f as u16, (f - lo) as u16)).collect();
+            let expects: Vec<Expect> = msgs.iter().map(|m| reference(env.world, *mode, m, false)).collect();
+            let want: Vec<bool> = expects.iter().map(Expect::wants_reply).collect();
+            let obs = udp_batch_sem(addr, &msgs, &want, env.window, 60, Some(&env.sems[mode]));
+            res.retried += obs.retried;
+            res.dead = obs.dead;
+            res.messages += msgs.len() as u64;
+            for (i, m) in msgs.iter().enumerate() {
+                let findings = refine_findings(&expects[i], &obs.replies[i], judge(&expects[i], Transport::Udp, &obs.replies[i]));
+                res.compared += 1;
+                if is_nontrivial(&expects[i]) {
+                    res.nontrivial += 1;
+                }
+                *res.hist.entry(format!("{}/udp/flags/{}", mode.name(), expects[i].label())).or_insert(0) += 1;
+                for (clause, text) in findings {
+                    if obs.dead && clause == "no-reply" {
+                        continue;
+                    }
+                    if !res.admit(clause) {
+                        continue;
+                    }
+                    let label = format!("flags {:#06x}, {}", lo + i as u32, SHAPE_NAMES[*shape]);
+                    res.violations.push(udp_violation(*mode, &label, &[m], 0, clause, &text));
+                }
+            }
+            for s in &obs.strays {
+                push_counted(&mut res, Violation {
+                    clause: "stray-datagram".into(),
+                    summary: format!("[{} UDP] datagram with an ID no message of the batch carries: {}", mode.name(), hex(&s[..s.len().min(32)])),
+                    replay: json!({"mode": mode.name(), "transport": "udp", "label": "stray", "msgs": msgs.iter().take(64).map(|m| hex(m)).collect::<Vec<_>>()}),
+                    slug: None,
+                });
+            }
+            if *lo == 0 && *shape == 1 {
+                res.samples.push(json!({"mode": mode.name(), "message": hex(&msgs[0x0100.min(msgs.len() - 1)]), "expected": expects[0x0100.min(msgs.len() - 1)].label(), "reply": obs.replies[0x0100.min(msgs.len() - 1)].first().map(|r| hex(r))}));
+            }
+            if obs.dead {
+                res.sent_for_bisect = msgs.into_iter().map(|m| (Transport::Udp, m)).collect();
+            }
+        }
+        Item::Misc { mode, lo, hi } => {
+            let addr = env.addr[mode];
+            let slice = &env.misc[*lo..*hi];
+            let msgs: Vec<Vec<u8>> = slice
+                .iter()
+                .enumerate()
+                .map(|(i, (_, m))| {
+                    let mut m = m.clone();
+                    set_id(&mut m, (lo + i + 1) as u16);
+                    m
+                })
+                .collect();
+            let expects: Vec<Expect> = msgs.iter().map(|m| reference(env.world, *mode, m, false)).collect();
+            let want: Vec<bool> = expects.iter().map(Expect::wants_reply).collect();
+            let obs = udp_batch_sem(addr, &msgs, &want, 16, 120, Some(&env.sems[mode]));
+            res.retried += obs.retried;
+            res.dead = obs.dead;
+            for (i, m) in msgs.iter().enumerate() {
+                let label = &slice[i].0;
+                res.messages += 1;
+                note_distinct(&mut res, *mode, Transport::Udp, m);
+                let findings = refine_findings(&expects[i], &obs.replies[i], judge(&expects[i], Transport::Udp, &obs.replies[i]));
+                res.compared += 1;
+                if is_nontrivial(&expects[i]) {
+                    res.nontrivial += 1;
+                }
+                *res.hist.entry(format!("{}/udp/{}", mode.name(), expects[i].label())).or_insert(0) += 1;
+                if let Some(r) = obs.replies[i].first() {
+                    if r.len() >= 3 && r[2] & 2 != 0 {
+                        *res.hist.entry(format!("{}/udp/reply cut at 512 with TC", mode.name())).or_insert(0) += 1;
+                    }
+                }
+                for (clause, text) in findings {
+                    push_counted(&mut res, udp_violation(*mode, label, &[m], 0, clause, &text));
+                }
+                // the same message over TCP, on its own connection
+                if Instant::now() > env.deadline {
+                    continue;
+                }
+                let mut mt = m.clone();
+                set_id(&mut mt, (lo + i + 1) as u16);
+                let fr = framed(&mt);
+                let mut tobs = tcp_exchange(addr, &[fr.clone()], 0, CloseMode::HalfClose);
+                if tobs.reset && tobs.stream.is_empty() {
+                    tobs = tcp_exchange(addr, &[fr.clone()], 0, CloseMode::HalfClose);
+                }
+                let (texp, tf) = judge_tcp(env.world, *mode, &fr, CloseMode::HalfClose, &tobs);
+                res.messages += 1;
+                res.compared += 1;
+                note_distinct(&mut res, *mode, Transport::Tcp, &mt);
+                *res.hist.entry(format!("{}/tcp/{}", mode.name(), texp.label())).or_insert(0) += 1;
+                let treplies: Vec<Vec<u8>> = if tobs.stream.len() >= 2 { vec![tobs.stream[2..].to_vec()] } else { vec![] };
+                for (clause, text) in refine_findings(&texp, &treplies, tf) {
+                    push_counted(&mut res, tcp_violation(*mode, label, &[fr.clone()], 0, CloseMode::HalfClose, clause, &text));
+                }
+                // UDP length against the full (TCP) encoding of the same reply
+                if let (Expect::Std { alts, .. }, Some(u), true) = (&expects[i], obs.replies[i].first(), tobs.stream.len() >= 2) {
+                    let full = tobs.stream.len() - 2;
+                    let stable = alts.len() == 1 && !alts[0].ttl_slack;
+                    if stable {
+                        let want_len = full.min(512);
+                        let want_tc = full > 512;
+                        let tc = u.len() >= 3 && u[2] & 2 != 0;
+                        if u.len() != want_len || tc != want_tc {
+                            push_counted(&mut res, udp_violation(
+                                *mode,
+                                label,
+                                &[m],
+                                0,
+                                "udp-length",
+                                &format!("full reply is {full} octets (TCP); UDP reply has {} octets, TC={tc}", u.len()),
+                            ));
+                        }
+                        if label.contains("size family") {
+                            res.family_sizes.insert(label.clone(), full);
+                        }
+                        if full > 65000 {
+                            *res.hist.entry(format!("{}/tcp/reply cut at 65535 with TC", mode.name())).or_insert(0) += u64::from(tobs.stream.len() >= 5 && tobs.stream[4] & 2 != 0);
+                        }
+                    }
+                }
+                if res.samples.len() < 2 && (label.contains("deep.sub") || label.contains("s20")) {
+                    res.samples.push(json!({"mode": mode.name(), "case": label, "message": hex(m), "expected": expects[i].label(), "udp_reply_len": obs.replies[i].first().map(|r| r.len()), "tcp_reply_len": tobs.stream.len().saturating_sub(2)}));
+                }
+            }
+            for s in &obs.strays {
+                push_counted(&mut res, Violation {
+                    clause: "stray-datagram".into(),
+                    summary: format!("[{} UDP] datagram with an ID no message of the batch carries: {}", mode.name(), hex(&s[..s.len().min(32)])),
+                    replay: json!({"mode": mode.name(), "transport": "udp", "label": "stray", "msgs": msgs.iter().map(|m| hex(m)).collect::<Vec<_>>()}),
+                    slug: None,
+                });
+            }
+            if obs.dead {
+                res.sent_for_bisect = msgs.into_iter().map(|m| (Transport::Udp, m)).collect();
+            }
+        }
+        Item::Tcp { mode, lo, hi } => {
+            let addr = env.addr[mode];
+            for case in &env.tcp[*lo..*hi] {
+                if Instant::now() > env.deadline {
+                    *res.hist.entry("skipped (wall-clock cap)".into()).or_insert(0) += 1;
+                    continue;
+                }
+                let sent: Vec<u8> = case.segments.concat();
+                let mut obs = tcp_exchange(addr, &case.segments, case.gap_ms, case.close);
+                let expect_probe = match tcp_delivered(&sent) {
+                    None => Expect::NoReply("too short to hold an ID"),
+                    Some((m, short)) => reference(env.world, *mode, &m, short),
+                };
+                // When fewer octets were declared than sent the server closes with unread input and
+                // the kernel answers with a reset, which can destroy a reply that is still in
+                // flight: a connection reset before the announced reply is complete is not a
+                // verdict about the server.  Try again, then count the case as not judged.
+                let torn = |o: &TcpObs| -> bool {
+                    o.reset
+                        && (o.stream.len() < 2
+                            || o.stream.len() < 2 + u16::from_be_bytes([o.stream[0], o.stream[1]]) as usize)
+                };
+                let mut tries = 0;
+                while case.close != CloseMode::Close && expect_probe.wants_reply() && torn(&obs) && tries < 3 {
+                    obs = tcp_exchange(addr, &case.segments, case.gap_ms, case.close);
+                    tries += 1;
+                }
+                if case.close != CloseMode::Close && expect_probe.wants_reply() && torn(&obs) {
+                    res.not_judged_reset += 1;
+                    continue;
+                }
+                let (expect, f) = judge_tcp(env.world, *mode, &sent, case.close, &obs);
+                res.messages += 1;
+                note_distinct(&mut res, *mode, Transport::Tcp, &sent);
+                if case.close != CloseMode::Close {
+                    res.compared += 1;
+                }
+                res.nontrivial += 1;
+                *res.hist.entry(format!("{}/tcp-framing/{}/{}", mode.name(), case.close.name(), expect.label())).or_insert(0) += 1;
+                if obs.connect_failed {
+                    res.dead = true;
+                }
+                let replies: Vec<Vec<u8>> = if obs.stream.len() >= 2 { vec![obs.stream[2..].to_vec()] } else { vec![] };
+                for (clause, text) in refine_findings(&expect, &replies, f) {
+                    let short = matches!(tcp_delivered(&sent), Some((_, true)));
+                    let mut v = tcp_violation(*mode, &case.label, &case.segments, case.gap_ms, case.close, clause, &text);
+                    if clause == "reply-to-response" && short {
+                        v.slug = Some("formerr-reply-to-malformed-response");
+                    }
+                    push_counted(&mut res, v);
+                }
+                if case.label.contains("ladder") || (res.samples.is_empty() && case.label.contains("declared 65535, sent 30")) {
+                    res.samples.push(json!({"mode": mode.name(), "case": case.label, "expected": expect.label(), "reply_octets": obs.stream.len()}));
+                }
+                res.sent_for_bisect.push((Transport::Tcp, sent));
+            }
+            if !res.dead {
+                res.sent_for_bisect.clear();
+            }
+        }
+        Item::Pairs { mode, arity, lo, hi } => {
+            let arity = *arity;
+            let addr = env.addr[mode];
+            let n = env.pairs.len();
+            // each message alone first
+            let alone_msgs: Vec<Vec<u8>> = env
+                .pairs
+                .iter()
+                .enumerate()
+                .map(|(i, (_, m))| {
+                    let mut m = m.clone();
+                    set_id(&mut m, 0x7000 + i as u16);
+                    m
+                })
+                .collect();
+            let alone_exp: Vec<Expect> = alone_msgs.iter().map(|m| reference(env.world, *mode, m, false)).collect();
+            let alone_want: Vec<bool> = alone_exp.iter().map(Expect::wants_reply).collect();
+            let alone = udp_batch_sem(addr, &alone_msgs, &alone_want, 1, 80, Some(&env.sems[mode]));
+            if alone.dead {
+                res.dead = true;
+                return res;
+            }
+            let norm = |r: &Vec<u8>| -> Vec<u8> {
+                let mut r = r.clone();
+                set_id(&mut r, 0);
+                r
+            };
+            let mut msgs: Vec<Vec<u8>> = Vec::new();
+            let mut idx: Vec<usize> = Vec::new();
+            for p in *lo..*hi {
+                let mut digits: Vec<usize> = Vec::new();
+                let mut rest = p;
+                for _ in 0..arity {
+                    digits.push(rest % n);
+                    rest /= n;
+                }
+                digits.reverse();
+                for (k, which) in digits.into_iter().enumerate() {
+                    let mut m = env.pairs[which].1.clone();
+                    set_id(&mut m, ((p - lo) * arity + k + 1) as u16);
+                    msgs.push(m);
+                    idx.push(which);
+                }
+            }
+            let expects: Vec<Expect> = msgs.iter().map(|m| reference(env.world, *mode, m, false)).collect();
+            let want: Vec<bool> = expects.iter().map(Expect::wants_reply).collect();
+            let obs = udp_batch_sem(addr, &msgs, &want, arity, 120, Some(&env.sems[mode]));
+            res.dead = obs.dead;
+            res.retried += obs.retried;
+            for (i, m) in msgs.iter().enumerate() {
+                let which = idx[i];
+                let first = i - (i % arity);
+                let label = format!(
+                    "{} back to back: {}; message {}",
+                    if arity == 2 { "pair" } else { "tuple" },
+                    (first..first + arity).map(|j| format!("({})", env.pairs[idx[j]].0)).collect::<Vec<_>>().join(" then "),
+                    i % arity + 1
+                );
+                let both: Vec<&Vec<u8>> = (first..first + arity).map(|j| &msgs[j]).collect();
+                res.messages += 1;
+                res.compared += 1;
+                if i % arity == 0 {
+                    res.pairs += 1;
+                    res.nontrivial += 1;
+                }
+                for (clause, text) in refine_findings(&expects[i], &obs.replies[i], judge(&expects[i], Transport::Udp, &obs.replies[i])) {
+                    if !res.admit(clause) {
+                        continue;
+                    }
+                    let mut v = udp_violation(*mode, &label, &both, i % arity, clause, &text);
+                    v.slug = slug_for(clause, m, false);
+                    res.violations.push(v);
+                }
+                // no cross-talk: same reply as when sent alone
+                let stable = match &expects[i] {
+                    Expect::Std { alts, .. } => alts.len() == 1 && !alts[0].ttl_slack,
+                    _ => true,
+                };
+                if stable {
+                    let a: Vec<Vec<u8>> = alone.replies[which].iter().map(norm).collect();
+                    let b: Vec<Vec<u8>> = obs.replies[i].iter().map(norm).collect();
+                    if a != b {
+                        push_counted(&mut res, udp_violation(
+                            *mode,
+                            &label,
+                            &both,
+                            i % arity,
+                            "cross-talk",
+                            &format!(
+                                "reply differs from the reply to the same message sent alone: alone {:?}, in the pair {:?}",
+                                a.first().map(|r| hex(&r[..r.len().min(24)])),
+                                b.first().map(|r| hex(&r[..r.len().min(24)]))
+                            ),
+                        ));
+                    }
+                }
+            }
+            *res.hist.entry(format!("{}/udp/{}", mode.name(), if arity == 2 { "pairs" } else { "triples" })).or_insert(0) += (hi - lo) as u64;
+            for s in &obs.strays {
+                push_counted(&mut res, Violation {
+                    clause: "stray-datagram".into(),
+                    summary: format!("[{} UDP] pairs: datagram with an ID no message of the batch carries: {}", mode.name(), hex(&s[..s.len().min(32)])),
+                    replay: json!({"mode": mode.name(), "transport": "udp", "label": "stray", "msgs": []}),
+                    slug: None,
+                });
+            }
+            if obs.dead {
+                res.sent_for_bisect = msgs.into_iter().map(|m| (Transport::Udp, m)).collect();
+            }
+        }
+    }
+    res
+}
+
+fn push_counted(res: &mut ItemResult, v: Violation) {
+    if res.admit(&v.clause) {
+        res.violations.push(v);
+    }
+}
+
+fn tcp_violation(mode: Mode, label: &str, segments: &[Vec<u8>], gap_ms: u64, close: CloseMode, clause: &'static str, text: &str) -> Violation {
+    let sent: Vec<u8> = segments.concat();
+    let (msg, short) = tcp_delivered(&sent).unwrap_or((Vec::new(), false));
+    let show: Vec<String> = segments
+        .iter()
+        .map(|s| if s.len() > 600 { format!("{}..({} octets)", hex(&s[..64]), s.len()) } else { hex(s) })
+        .collect();
+    Violation {
+        clause: clause.to_string(),
+        summary: format!("[{} TCP {}] {label}: {text} (octets written: {})", mode.name(), close.name(), show.join(" + ").chars().take(200).collect::<String>()),
+        replay: json!({
+            "mode": mode.name(),
+            "transport": "tcp",
+            "label": label,
+            "segments": segments.iter().map(|s| hex(s)).collect::<Vec<_>>(),
+            "gap_ms": gap_ms,
+            "close": close.name(),
+        }),
+        slug: slug_for(clause, &msg, short),
+    }
+}
+
+// =====================================================================================
+// Set-up, run, replay
+// =====================================================================================
+
+pub struct Rig {
+    pub dir: DirGuard,
+    pub fwd: Forwarder,
+    pub servers: BTreeMap<Mode, Server>,
+    pub world: World,
+    args: BTreeMap<Mode, Vec<String>>,
+}
+
+fn server_args(mode: Mode, dir: &Path, fwd: SocketAddr) -> Vec<String> {
+    let mut a: Vec<String> = Vec::new();
+    match mode {
+        Mode::Auth => a.push("--authoritative-only".into()),
+        Mode::Rec => {
+            a.push("-f".into());
+            a.push(fwd.to_string());
+        }
+    }
+    a.extend(["-s".into(), "1".into()]);
+    a.extend(["-z".into(), dir.join("c9.zone").display().to_string()]);
+    a.extend(["-a".into(), dir.join("c9.hosts").display().to_string()]);
+    a
+}
+
+pub fn build_rig(modes: &[Mode]) -> Result<Rig, String> {
+    let dir = work_dir("c09");
+    let guard = DirGuard(dir.clone());
+    let zt = zone_text();
+    let ht = hosts_text();
+    std::fs::write(dir.join("c9.zone"), &zt).map_err(|e| format!("write zone: {e}"))?;
+    std::fs::write(dir.join("c9.hosts"), &ht).map_err(|e| format!("write hosts: {e}"))?;
+    let fwd = start_forwarder()?;
+    let world = World::new(&zt, &ht, Some(fwd.addr))?;
+    let mut servers = BTreeMap::new();
+    let mut args = BTreeMap::new();
+    for &m in modes {
+        let a = server_args(m, &dir, fwd.addr);
+        servers.insert(m, Server::start(&a, &[], "warn")?);
+        args.insert(m, a);
+    }
+    Ok(Rig {
+        dir: guard,
+        fwd,
+        servers,
+        world,
+        args,
+    })
+}
+
+fn alive_and_answering(srv: &mut Server) -> Result<(), String> {
+    if !srv.alive() {
+        return Err(format!("process gone ({}); log tail {:?}", srv.exit_status(), srv.log.tail(6)));
+    }
+    let obs = udp_batch(srv.addr, &[], &[], 1, 1);
+    if obs.dead {
+        return Err(format!("no answer to the UDP sentinel; log tail {:?}", srv.log.tail(6)));
+    }
+    let fr = framed(&sentinel_query(0xff77));
+    let t = tcp_exchange(srv.addr, &[fr], 0, CloseMode::HalfClose);
+    if t.connect_failed || t.stream.len() < 14 {
+        return Err(format!("no answer to the TCP sentinel; log tail {:?}", srv.log.tail(6)));
+    }
+    Ok(())
+}
+
+/// After a crash: find one message that brings a fresh server down, by halving the list of
+/// suspects (each half is fed to a server that is known to be up).
+fn find_killer(args: &[String], suspects: &[(Transport, Vec<u8>)], budget: Duration) -> Option<(Transport, Vec<u8>, String)> {
+    let start = Instant::now();
+    let mut srv = Server::start(args, &[], "warn").ok()?;
+    let feed = |srv: &mut Server, part: &[(Transport, Vec<u8>)]| -> Result<(), String> {
+        let sock = UdpSocket::bind((Ipv4Addr::LOCALHOST, 0)).map_err(|e| e.to_string())?;
+        let _ = sock.connect(srv.addr);
+        let mut buf = vec![0u8; 70000];
+        let udp: Vec<&Vec<u8>> = part.iter().filter(|(t, _)| *t == Transport::Udp).map(|(_, m)| m).collect();
+        for (k, chunk) in udp.chunks(32).enumerate() {
+            for m in chunk {
+                let _ = sock.send(m);
+            }
+            let sid = SENTINEL_LO + (k % 250) as u16;
+            let _ = sock.send(&sentinel_query(sid));
+            let mut seen = false;
+            for patience in [400u64, 1500] {
+                let deadline = Instant::now() + Duration::from_millis(patience);
+                while !seen && Instant::now() < deadline {
+                    let _ = sock.set_read_timeout(Some(Duration::from_millis(20)));
+                    if let Ok(n) = sock.recv(&mut buf) {
+                        seen = n >= 2 && u16::from_be_bytes([buf[0], buf[1]]) == sid;
+                    } else if !srv.alive() {
+                        return Err(format!("process gone ({})", srv.exit_status()));
+                    }
+                }
+                if seen {
+                    break;
+                }
+            }
+            if !seen {
+                return Err("no answer to the UDP sentinel".into());
+            }
+        }
+        for (t, m) in part {
+            if *t == Transport::Tcp {
+                let _ = tcp_exchange(srv.addr, &[m.clone()], 0, CloseMode::HalfClose);
+                if !srv.alive() {
+                    return Err(format!("process gone ({})", srv.exit_status()));
+                }
+            }
+        }
+        alive_and_answering(srv)
+    };
+    let (mut lo, mut hi) = (0usize, suspects.len());
+    if hi == 0 || feed(&mut srv, suspects).is_ok() {
+        return None;
+    }
+    let mut why = String::new();
+    while hi - lo > 1 {
+        if start.elapsed() > budget {
+            return None;
+        }
+        if !srv.alive() || alive_and_answering(&mut srv).is_err() {
+            srv = Server::start(args, &[], "warn").ok()?;
+        }
+        let mid = lo + (hi - lo) / 2;
+        match feed(&mut srv, &suspects[lo..mid]) {
+            Err(w) => {
+                hi = mid;
+                why = w;
+            }
+            Ok(()) => lo = mid,
+        }
+    }
+    // confirm on a fresh server
+    let mut fresh = Server::start(args, &[], "warn").ok()?;
+    match feed(&mut fresh, &suspects[lo..hi]) {
+        Err(w) => Some((suspects[lo].0, suspects[lo].1.clone(), if w.is_empty() { why } else { w })),
+        Ok(()) => None,
+    }
+}
+
+pub fn run(ctx: &Ctx) -> i32 {
+    let budget = ctx.tier.pick(38.0, 520.0);
+    let mut rig = match build_rig(&[Mode::Auth, Mode::Rec]) {
+        Ok(r) => r,
+        Err(e) => {
+            eprintln!("C09: machinery error: {e}");
+            return 2;
+        }
+    };
+    let misc = misc_messages(ctx.tier);
+    let tcp = tcp_cases(ctx.tier, 0x2000);
+    let pairs = pair_alphabet();
+    let modes = [Mode::Auth, Mode::Rec];
+
+    // work items, largest first
+    let mut items: Vec<Item> = Vec::new();
+    let flag_chunk = 4096u32;
+    for &mode in &modes {
+        let shapes: Vec<usize> = match (ctx.tier, mode) {
+            (Tier::Thorough, _) => (0..N_SHAPES).collect(),
+            (Tier::Quick, _) => (0..6).collect(),
+        };
+        for shape in shapes {
+            let mut lo = 0u32;
+            while lo < 65536 {
+                items.push(Item::Flags { mode, shape, lo, hi: lo + flag_chunk });
+                lo += flag_chunk;
+            }
+        }
+    }
+    let mut small: Vec<Item> = Vec::new();
+    for &mode in &modes {
+        let step = 48usize;
+        let mut lo = 0;
+        while lo < misc.len() {
+            small.push(Item::Misc { mode, lo, hi: (lo + step).min(misc.len()) });
+            lo += step;
+        }
+        let step = 64usize;
+        let mut lo = 0;
+        while lo < tcp.len() {
+            small.push(Item::Tcp { mode, lo, hi: (lo + step).min(tcp.len()) });
+            lo += step;
+        }
+        let np = pairs.len() * pairs.len();
+        let step = 100usize;
+        let mut lo = 0;
+        while lo < np {
+            small.push(Item::Pairs { mode, arity: 2, lo, hi: (lo + step).min(np) });
+            lo += step;
+        }
+    }
+    let mut triples: Vec<Item> = Vec::new();
+    if ctx.tier == Tier::Thorough {
+        for &mode in &modes {
+            let nt = pairs.len() * pairs.len() * pairs.len();
+            let step = 800usize;
+            let mut lo = 0;
+            while lo < nt {
+                triples.push(Item::Pairs { mode, arity: 3, lo, hi: (lo + step).min(nt) });
+                lo += step;
+            }
+        }
+    }
+    // the small alphabets first (so that a wall-clock cap can only cut the flag sweep short),
+    // alternating between the two servers
+    let mut all: Vec<Item> = Vec::new();
+    let half = small.len() / 2;
+    for i in 0..half {
+        all.push(small[i].clone());
+        all.push(small[half + i].clone());
+    }
+    let fa: Vec<Item> = items.iter().filter(|i| matches!(i, Item::Flags { mode: Mode::Auth, .. })).cloned().collect();
+    let fr: Vec<Item> = items.iter().filter(|i| matches!(i, Item::Flags { mode: Mode::Rec, .. })).cloned().collect();
+    let (mut i, mut j) = (0, 0);
+    while i < fa.len() || j < fr.len() {
+        for _ in 0..3 {
+            if i < fa.len() {
+                all.push(fa[i].clone());
+                i += 1;
+            }
+        }
+        if j < fr.len() {
+            all.push(fr[j].clone());
+            j += 1;
+        }
+    }
+    all.extend(triples);
+
+    let env = Env {
+        world: &rig.world,
+        addr: rig.servers.iter().map(|(m, s)| (*m, s.addr)).collect(),
+        misc: &misc,
+        tcp: &tcp,
+        pairs: &pairs,
+        deadline: ctx.start + Duration::from_secs_f64(budget),
+        sems: modes.iter().map(|m| (*m, Sem::new(128))).collect(),
+        window: 24,
+        down: modes.iter().map(|m| (*m, AtomicBool::new(false))).collect(),
+    };
+    let next = std::sync::atomic::AtomicUsize::new(0);
+    let results: Mutex<Vec<(usize, ItemResult)>> = Mutex::new(Vec::new());
+    // at most workers x (window + 1) datagrams are in flight towards a server: keep that
+    // below what its socket buffer holds, or the kernel drops queries
+    let workers = ctx.threads.clamp(2, 12);
+    std::thread::scope(|s| {
+        for _ in 0..workers {
+            s.spawn(|| loop {
+                let k = next.fetch_add(1, Ordering::Relaxed);
+                if k >= all.len() {
+                    break;
+                }
+                let r = run_item(&env, &all[k]);
+                results.lock().unwrap().push((k, r));
+            });
+        }
+    });
+    let mut results = results.into_inner().unwrap();
+    results.sort_by_key(|(k, _)| *k);
+
+    let mut report = Report::new();
+    let sink = Sink::new(6);
+    let mut distinct: HashSet<u64> = HashSet::new();
+    let mut flag_msgs = 0u64;
+    let mut pairs_n = 0u64;
+    let mut retried = 0u64;
+    let mut reset_unjudged = 0u64;
+    let mut family: BTreeMap<String, usize> = BTreeMap::new();
+    let mut suspects: BTreeMap<Mode, Vec<(Transport, Vec<u8>)>> = BTreeMap::new();
+    let mut skipped = 0u64;
+    let mut occurrences: BTreeMap<String, u64> = BTreeMap::new();
+    for (k, r) in results {
+        report.evaluations += r.messages;
+        report.traces_validated += r.compared;
+        report.distinct_nontrivial += r.nontrivial;
+        pairs_n += r.pairs;
+        retried += r.retried;
+        reset_unjudged += r.not_judged_reset;
+        if let Item::Flags { .. } = &all[k] {
+            flag_msgs += r.messages;
+        }
+        skipped += r.hist.get("skipped (wall-clock cap)").copied().unwrap_or(0);
+        report.merge_hist(&r.hist);
+        distinct.extend(r.distinct);
+        family.extend(r.family_sizes);
+        for (c, n) in &r.vcount {
+            *occurrences.entry(c.clone()).or_insert(0) += n;
+        }
+        for v in r.violations {
+            sink.push(v);
+        }
+        for s in r.samples {
+            if report.samples.len() < 6 {
+                report.samples.push(s);
+            }
+        }
+        if r.dead {
+            let mode = match &all[k] {
+                Item::Flags { mode, .. } | Item::Misc { mode, .. } | Item::Tcp { mode, .. } | Item::Pairs { mode, .. } => *mode,
+            };
+            suspects.entry(mode).or_default().extend(r.sent_for_bisect);
+        }
+    }
+    if skipped > 0 {
+        report.exhaustive = false;
+        report.extra.insert("cap".into(), json!(format!("wall-clock cap of {budget} s hit: {skipped} work items / cases skipped")));
+    }
+
+    // liveness at the end (and the search for the killer if a server went down)
+    let mut down: Vec<(Mode, String, Vec<(Transport, Vec<u8>)>)> = Vec::new();
+    for &mode in &modes {
+        let verdict = alive_and_answering(rig.servers.get_mut(&mode).unwrap());
+        if let Err(why) = verdict {
+            down.push((mode, why, suspects.remove(&mode).unwrap_or_default()));
+        } else if suspects.contains_key(&mode) {
+            // a batch lost its sentinel although the process lives and answers now
+            sink.push(Violation {
+                clause: "liveness".into(),
+                summary: format!("[{}] the server stopped answering sentinel queries during a batch but answers again now", mode.name()),
+                replay: json!({"mode": mode.name(), "transport": "udp", "label": "liveness", "msgs": []}),
+                slug: None,
+            });
+        }
+    }
+    let killer_budget = Duration::from_secs(ctx.tier.pick(12, 120));
+    std::thread::scope(|s| {
+        for (mode, why, sus) in &down {
+            let args = &rig.args[mode];
+            let sink = &sink;
+            s.spawn(move || {
+                let killer = find_killer(args, sus, killer_budget);
+                let (summary, replay) = match killer {
+                    Some((t, m, why2)) => (
+                        format!("[{}] server down after one {:?} message ({} octets: {}...): {why2}", mode.name(), t, m.len(), hex(&m[..m.len().min(40)])),
+                        match t {
+                            Transport::Udp => json!({"mode": mode.name(), "transport": "udp", "label": "kills the server", "msgs": [hex(&m)]}),
+                            Transport::Tcp => json!({"mode": mode.name(), "transport": "tcp", "label": "kills the server", "segments": [hex(&m)], "gap_ms": 0, "close": "half-close"}),
+                        },
+                    ),
+                    None => (
+                        format!("[{}] server down at the end of the run: {why} (no single message of the {} suspects reproduces it within the search budget)", mode.name(), sus.len()),
+                        json!({"mode": mode.name(), "transport": "udp", "label": "liveness", "msgs": []}),
+                    ),
+                };
+                sink.push(Violation {
+                    clause: "liveness".into(),
+                    summary,
+                    replay,
+                    slug: None,
+                });
+            });
+        }
+    });
+
+    // the size family must straddle the 512-octet boundary, else the TC clause was not exercised
+    let sizes: BTreeSet<usize> = family.values().copied().collect();
+    let straddles = [511usize, 512, 513].iter().all(|s| sizes.contains(s));
+    if !straddles && report.exhaustive {
+        eprintln!("C09: machinery error: size family gives full reply sizes {sizes:?}, which do not include 511, 512 and 513");
+        return 2;
+    }
+
+    report.states = flag_msgs + distinct.len() as u64;
+    report.transitions = report.evaluations + pairs_n;
+    report.rule = "a compared message is counted as non-trivial when the reference responder expects anything but a complete NOERROR answer (no reply, FORMERR, NOTIMP, REFUSED, SERVFAIL, NXDOMAIN, cache-dependent outcome), plus every TCP framing case and every ordered pair sent back to back".into();
+    report.bounds = json!({
+        "modes": ["authoritative-only (-s 1)", "recursion offered, forwarder on loopback (-s 1)"],
+        "flag_words": 65536,
+        "question_shapes": if ctx.tier == Tier::Thorough { &SHAPE_NAMES[..] } else { &SHAPE_NAMES[..6] },
+        "misc_messages_per_mode_each_over_udp_and_tcp": misc.len(),
+        "tcp_framing_cases_per_mode": tcp.len(),
+        "pair_alphabet": pairs.len(),
+        "ordered_pairs_per_mode": pairs.len() * pairs.len(),
+        "ordered_triples_per_mode": if ctx.tier == Tier::Thorough { pairs.len() * pairs.len() * pairs.len() } else { 0 },
+        "size_family_full_reply_octets": sizes,
+        "huge_rrset_records": HUGE_RECORDS,
+        "forwarder_queries_served": rig.fwd.served.load(Ordering::Relaxed),
+        "udp_probes_answered_only_on_retry": retried,
+        "tcp_cases_not_judged_reset_before_reply": reset_unjudged,
+    });
+    report.assumptions = vec![
+        "D10: one message per TCP connection; a second message on the same connection is not judged".into(),
+        "a message with the QR bit readable (>= 3 octets) and set counts as 'flagged as a response' whether or not the rest parses".into(),
+        "zero questions: nothing is resolved, SERVFAIL expected (anchor 'SERVFAIL when nothing was resolved')".into(),
+        "non-standard opcode takes precedence over the REFUSED rules (DESIGN section 6 C09)".into(),
+        "sections/AA/RCODE expectations come from dns_resolver::resolve run in-process on the same zone and hosts text; where the shared cache matters (recursion offered, RD=0 after RD=1) both the cold and the warm outcome are accepted and TTLs may have counted down".into(),
+        "TCP 'close' cases (both directions closed at once) cannot observe the reply; they count towards liveness only".into(),
+        "UDP datagrams above 512 octets and zones whose record counts overflow 16 bits are outside the explored space".into(),
+    ];
+    report.violations = sink.take();
+    report.extra.insert("violation_counts".into(), json!(sink.counts()));
+    report.extra.insert("violation_occurrences_by_clause".into(), json!(occurrences));
+    drop(env);
+    drop(rig);
+    finish(ctx, report)
+}
+
+pub fn replay(_ctx: &Ctx, v: &Value) -> i32 {
+    let mode = Mode::from_name(v["mode"].as_str().unwrap_or("auth"));
+    let mut rig = match build_rig(&[mode]) {
+        Ok(r) => r,
+        Err(e) => {
+            eprintln!("C09: machinery error: {e}");
+            return 2;
+        }
+    };
+    let addr = rig.servers[&mode].addr;
+    let mut bad = false;
+    println!("C09 replay: {} [{}]", v["label"].as_str().unwrap_or(""), mode.name());
+    if v["transport"].as_str() == Some("tcp") {
+        let segments: Vec<Vec<u8>> = v["segments"].as_array().cloned().unwrap_or_default().iter().map(|s| unhex(s.as_str().unwrap_or(""))).collect();
+        let close = CloseMode::from_name(v["close"].as_str().unwrap_or("half-close"));
+        let gap = v["gap_ms"].as_u64().unwrap_or(0);
+        let sent: Vec<u8> = segments.concat();
+        let obs = tcp_exchange(addr, &segments, gap, close);
+        let (expect, f) = judge_tcp(&rig.world, mode, &sent, close, &obs);
+        let replies: Vec<Vec<u8>> = if obs.stream.len() >= 2 { vec![obs.stream[2..].to_vec()] } else { vec![] };
+        let f = refine_findings(&expect, &replies, f);
+        println!("  written  : {} octets in {} segment(s), then {}", sent.len(), segments.len(), close.name());
+        println!("  reference: {}", expect.label());
+        println!("  server   : {} octets back{}: {}", obs.stream.len(), if obs.reset { " (connection reset)" } else { "" }, hex(&obs.stream[..obs.stream.len().min(64)]));
+        for (c, t) in &f {
+            println!("  MISMATCH {c}: {t}");
+            bad = true;
+        }
+    } else {
+        let msgs: Vec<Vec<u8>> = v["msgs"].as_array().cloned().unwrap_or_default().iter().map(|s| unhex(s.as_str().unwrap_or(""))).collect();
+        let expects: Vec<Expect> = msgs.iter().map(|m| reference(&rig.world, mode, m, false)).collect();
+        let want: Vec<bool> = expects.iter().map(Expect::wants_reply).collect();
+        let obs = udp_batch(addr, &msgs, &want, msgs.len().max(1), 300);
+        for (i, m) in msgs.iter().enumerate() {
+            println!("  message {}: {}", i + 1, hex(&m[..m.len().min(64)]));
+            println!("    reference: {}", expects[i].label());
+            match obs.replies[i].first() {
+                Some(r) => println!("    server   : {} reply(ies), first {} octets: {}", obs.replies[i].len(), r.len(), hex(&r[..r.len().min(64)])),
+                None => println!("    server   : no reply"),
+            }
+            for (c, t) in refine_findings(&expects[i], &obs.replies[i], judge(&expects[i], Transport::Udp, &obs.replies[i])) {
+                println!("    MISMATCH {c}: {t}");
+                bad = true;
+            }
+        }
+        if !obs.strays.is_empty() {
+            println!("  MISMATCH stray-datagram: {} datagram(s) with foreign IDs", obs.strays.len());
+            bad = true;
+        }
+    }
+    if let Err(why) = alive_and_answering(rig.servers.get_mut(&mode).unwrap()) {
+        println!("  MISMATCH liveness: {why}");
+        bad = true;
+    }
+    drop(rig);
+    if bad {
+        println!("VIOLATION property=C09 replay=(replayed case)");
+        1
+    } else {
+        println!("holds on the replayed case");
+        0
+    }
+}
+
+/// Entry point for `vcheck worker C09 <args...>` (child-process mode): unused.
 pub fn worker(_args: &[String]) -> i32 {
     2
 }
